@@ -1,4 +1,6 @@
 """C10 operations never modify their arguments; containers reject in-place writes."""
+import inspect
+import json
 import os
 import random
 import shutil
@@ -23,7 +25,15 @@ ASSUMPTIONS = ["'reject assignment' is read at the container API: attribute assi
                "Tsd(t, d) built without a time_support keeps the caller's array d (documented): item assignment on the series is then visible in d",
                "'only on the object addressed': an object that IS the addressed one (same Python object reached through another name, e.g. the IntervalSet returned by .time_support, or "
                "TsGroup.merge_group(g) returning g) is not 'another object', and the series returned by g[k] is the member of g itself (g shows the write); every other live object must be "
-               "unchanged, in particular a second group obtained from g by a selection"]
+               "unchanged, in particular a second group obtained from g by a selection",
+               "augmented assignment is an assignment: `x.index += v` (and -=, *=, /=) on the time index of a container, `x += v` on an alias of a series / IntervalSet, `x.rate += v` must leave every "
+               "object unchanged (raising, or rebinding the name to a new object); the same on the raw ndarrays handed out by .t / .values / .start (`x.t += 1`) is the documented NumPy back door and is "
+               "not generated",
+               "NumPy calls that ARE in-place writers by their own contract (np.put, np.place, np.putmask, np.copyto, np.fill_diagonal, out=<the object's own array>, copy=False) are writes to data values "
+               "requested by the caller, like item assignment: the statement does not make them queries or transformations and they are not generated; np.add(x, v, out=<caller array>) is generated "
+               "(x and every other object must be unchanged)",
+               "part (f) bounds, per tier, the data dtypes / scalar types that reach the numba kernels behind bin_average, threshold, count(dtype=) and the perievent averages (every new combination is a "
+               "compiled specialisation: quick = float64 data only, thorough = float64/float32/int64/uint8); every other operation sees all eleven dtypes in both tiers"]
 
 REJECT = (RuntimeError, AttributeError, TypeError, ValueError, IndexError, KeyError)
 
@@ -34,16 +44,10 @@ def _nap():
 
 
 def state(nap, o):
-    """deep snapshot (history.snapshot + the redundant views of keys / index / rate) that survives a broken object"""
-    try:
-        s = H.snapshot(nap, o)
-        if isinstance(o, nap.TsGroup):
-            return s + (tuple(o.data.keys()), np.array(o.index, copy=True), tuple(o._metadata.index), len(o))
-        if isinstance(o, nap.IntervalSet):
-            return s + (np.array(o.index, copy=True), tuple(o.columns), np.array(o.start, copy=True), np.array(o.end, copy=True))
-        return s + (np.array([o.rate], dtype=float), np.array(o.index.values, copy=True))
-    except Exception as ex:
-        return ("BROKEN", type(ex).__name__)
+    """deep snapshot that survives a broken object: timestamps, values (with dtype), support, column labels, keys, member identity and member states, index, rate and the whole metadata
+    frame (labels, index, every column) - everything history.snapshot plus the redundant views of keys / index / rate hold, as plain arrays (no pandas deep copies: 4x faster).
+    Compared with fs_equal (exact, NaN equals NaN, also in object columns)."""
+    return fstate(nap, o)
 
 
 def is_series(nap, o):
@@ -131,7 +135,7 @@ def check_rejected(res, nap):
             f(o)
         except REJECT:
             raised = True
-        changed = sorted(k for k, v in o.items() if not H.snap_equal(before[k], state(nap, v)))
+        changed = sorted(k for k, v in o.items() if not fs_equal(before[k], state(nap, v)))
         if not raised:
             res.violations.append({"key": {"op": label, "part": "accepted_write", "kind": kind, "container": c, "state_changed": bool(changed)},
                                    "what": "a write that must be rejected was accepted: %s (objects changed: %s)" % (label, changed or "none"), "input": {"case": label, "changed": changed}})
@@ -200,7 +204,7 @@ def check_setitem_local(res, nap):
             for j, o in enumerate(objs):
                 if o is dobj:
                     continue
-                if not H.snap_equal(s_before[j], state(nap, o)):
+                if not fs_equal(s_before[j], state(nap, o)):
                     other = "parent" if j == 0 else "sibling:" + names[j - 1]
                     res.violations.append({"key": {"op": "setitem", "part": "visible_through_other_object", "parent": cls, "derivation": names[k], "other_is_parent": j == 0},
                                            "what": "item assignment on %s(%s) changed another object (%s)" % (names[k], cls, other),
@@ -217,7 +221,7 @@ def check_setitem_local(res, nap):
             res.evaluations += 1
             sb = state(nap, dobj)
             base2[:] = base2.values * 0 - 7.0
-            if not H.snap_equal(sb, state(nap, dobj)):
+            if not fs_equal(sb, state(nap, dobj)):
                 res.violations.append({"key": {"op": "setitem", "part": "visible_through_other_object", "parent": cls, "derivation": name, "other_is_parent": False, "write_into": "parent"},
                                        "what": "item assignment on a %s changed the object derived from it by %s" % (cls, name), "input": {"parent": cls, "derivation": name}})
             base2 = mk()
@@ -245,7 +249,7 @@ def check_group_members_local(res, nap):
             res.count("exception:selection:" + sname)
             res.disagreements.append({"op": "selection", "what": "harness: the group selection %s raised, its locality check is vacuous" % sname})
             continue
-        if not H.snap_equal(before, state(nap, gt)):
+        if not fs_equal(before, state(nap, gt)):
             res.violations.append({"key": {"op": "setitem", "part": "visible_through_parent_group", "selection": sname},
                                    "what": "item assignment into a member of a selected/derived TsGroup changed the parent group's member", "input": {"selection": sname}})
         gt = mk()
@@ -253,7 +257,7 @@ def check_group_members_local(res, nap):
         sub = f(gt)
         if isinstance(sub, nap.TsGroup):
             sub.set_info(extra=list(range(len(sub))))
-            if not H.snap_equal(before, state(nap, gt)):
+            if not fs_equal(before, state(nap, gt)):
                 res.violations.append({"key": {"op": "set_info", "part": "visible_through_other_object", "container": "TsGroup", "derivation": sname},
                                        "what": "set_info on a group derived by %s changed the original group" % sname, "input": {"selection": sname}})
 
@@ -286,7 +290,7 @@ def check_set_info_local(res, nap):
                 res.count("exception:set_info_derive:%s:%s" % (cname, name))
                 res.disagreements.append({"op": "set_info", "what": "harness: set_info after the derivation %s of %s raised, its locality check is vacuous" % (name, cname)})
                 continue
-            if not H.snap_equal(before, state(nap, parent)):
+            if not fs_equal(before, state(nap, parent)):
                 res.violations.append({"key": {"op": "set_info", "part": "visible_through_other_object", "container": cname, "derivation": name},
                                        "what": "set_info on a %s derived by %s changed the original" % (cname, name), "input": {"container": cname, "derivation": name}})
 
@@ -437,7 +441,7 @@ def run_mut_history(nap, seed, hid, length):
     rng = random.Random(seed * 1000003 + hid)
     ops = H.gen_history(rng, length)
     R = H.Real(nap)
-    fails, mfails, exc, done = [], [], [], []
+    fails, mfails, exc, done, dropped = [], [], [], [], []
 
     def live():
         return R.objs + R.extra
@@ -451,13 +455,23 @@ def run_mut_history(nap, seed, hid, length):
             exc.append((label, type(ex).__name__ + ": " + str(ex)[:150]))
             out = None
         for i, o in enumerate(objs):
-            if not H.snap_equal(before[i], state(nap, o)):
+            if not fs_equal(before[i], state(nap, o)):
                 fails.append((label, i, type(o).__name__))
         return out
 
-    def keep(outs):
+    def keep(outs, before=None):
+        """`before` (the objects live before the call) is given for H's 'as_class', where the HARNESS hands one fresh array to several constructors called without a time support (the constructor
+        documents that it keeps the caller's array: ASSUMPTIONS[1]).  Of the results that share their values with each other and with NO object that was live before the call - sharing that
+        can only come from that caller array - the first one is kept; the others do not enter the store (part (f) builds those forms from separate arrays)."""
+        kept = []
         for y in outs or []:
             if isinstance(y, (nap.Ts, nap.Tsd, nap.TsdFrame, nap.TsdTensor, nap.TsGroup, nap.IntervalSet)):
+                if before is not None and is_series(nap, y) and isinstance(y.values, np.ndarray):
+                    old_share = any(is_series(nap, z) and isinstance(z.values, np.ndarray) and np.shares_memory(z.values, y.values) for z in before)
+                    if not old_share and any(np.shares_memory(z.values, y.values) for z in kept if is_series(nap, z) and isinstance(z.values, np.ndarray)):
+                        dropped.append(type(y).__name__)
+                        continue
+                kept.append(y)
                 R.extra.append(y)
 
     for step, op in enumerate(ops):
@@ -470,7 +484,8 @@ def run_mut_history(nap, seed, hid, length):
             continue
         if rng.random() < 0.5:
             name = rng.choice(H.UNMODELLED)
-            keep(guard("unmodelled:" + name, lambda: H.apply_unmodelled(R, name, rng)))
+            prior = live()
+            keep(guard("unmodelled:" + name, lambda: H.apply_unmodelled(R, name, rng)), before=prior if name == "as_class" else None)
             done.append(name)
         if rng.random() < 0.7:
             name = rng.choice(EXTRA)
@@ -495,14 +510,1423 @@ def run_mut_history(nap, seed, hid, length):
                 allowed = allowed + holders
             changed_target = False
             for i, o in enumerate(objs):
-                same = H.snap_equal(before[i], state(nap, o))
+                same = fs_equal(before[i], state(nap, o))
                 if any(o is a for a in allowed):
                     changed_target = changed_target or not same
                     continue
                 if not same:
                     owner = isinstance(o, nap.TsGroup) and any(mm is written for mm in o.data.values())
                     mfails.append((kind, type(target).__name__, type(o).__name__, i, bool(owner)))
-    return {"fails": fails, "mfails": mfails, "exc": exc, "done": done, "n_live": len(live())}
+    return {"fails": fails, "mfails": mfails, "exc": exc, "done": done, "n_live": len(live()), "dropped": dropped}
+
+
+# ------------------------------------------------------------------------------------------------------
+# (f) ARGUMENT FORMS: the same frame statement, on every accepted form of the inputs
+DTYPES = ["float64", "float64", "float64", "float64", "float32", "float32", "int64", "int32", "int16", "int8", "uint8", "uint16", "uint32", "uint64", "bool"]
+UNIT_F = {"s": 1.0, "ms": 1e3, "us": 1e6}
+TFORMS = ["ndarray", "ndarray", "float32", "int64", "int32", "uint8", "uint16", "uint32", "uint64", "list", "int_list", "tuple", "series", "pdindex", "tsindex", "x.t", "unsorted", "strided_view"]
+PLACES = {"origin": 0.0, "negative": -80.0, "straddle": -30.0, "far": 1e5}
+# every new (dtype, ndim, layout) of the DATA and every new scalar type reaching a numba kernel (bin_average, threshold, count's dtype, perievent averages) is a new compiled specialisation
+# (2-4 s each on a cold numba cache; the product of the axes is > 200 specialisations): the tiers bound that variety, for those four operations only.
+# All other operations see every dtype.
+JIT_DTYPES = {"quick": ("float64",), "thorough": ("float64", "float32", "int64", "uint8")}
+
+
+def _el_equal(x, y):
+    if x is y:
+        return True
+    try:
+        if isinstance(x, float) and isinstance(y, float) and x != x and y != y:
+            return True
+        r = x == y
+        return bool(r) if not hasattr(r, "all") else bool(np.all(r))
+    except Exception:
+        return False
+
+
+def fs_equal(a, b):
+    """exact equality of two form snapshots (dtype, shape, every element; NaN equals NaN)"""
+    if type(a) is not type(b):
+        return False
+    if isinstance(a, (tuple, list)):
+        return len(a) == len(b) and all(fs_equal(x, y) for x, y in zip(a, b))
+    if isinstance(a, np.ndarray):
+        if a.dtype != b.dtype or a.shape != b.shape:
+            return False
+        if a.dtype.kind == "O":
+            return all(_el_equal(x, y) for x, y in zip(a.ravel().tolist(), b.ravel().tolist()))
+        if a.dtype.kind in "fc":
+            return bool(np.array_equal(a, b, equal_nan=True))
+        return bool(np.array_equal(a, b))
+    return _el_equal(a, b)
+
+
+def _arr(a):
+    return np.array(a, copy=True, subok=False)
+
+
+def meta_snap(df):
+    """a metadata frame, exactly: column labels, index, every column (with its dtype)"""
+    cols = tuple(df.columns)
+    if not cols:
+        return ("M", (), _arr(df.index))
+    return ("M", cols, _arr(df.index), tuple(_arr(df[c].to_numpy()) for c in cols))
+
+
+def fstate(nap, o):
+    """deep snapshot of a pynapple object for part (f): everything `state` holds, plus dtypes and the identity of group members.  (The metadata of a series' time support belongs to
+    the IntervalSet object, which is snapshotted as an object of its own when it is live: x.time_support IS that object, ASSUMPTIONS[2].)"""
+    try:
+        if isinstance(o, nap.IntervalSet):
+            return ("E", _arr(o.values), _arr(o.index), tuple(o.columns), meta_snap(o._metadata))
+        if isinstance(o, nap.TsGroup):
+            ks = tuple(o.data.keys())
+            return ("G", ks, tuple(id(o.data[k]) for k in ks), tuple(fstate(nap, o.data[k]) for k in ks), _arr(o.time_support.values), _arr(o.index), meta_snap(o._metadata), len(o))
+        vals = _arr(o.values) if hasattr(o, "values") else None
+        if isinstance(o, nap.TsdFrame):
+            return ("T", "TsdFrame", _arr(o.index), vals, _arr(o.time_support.values), tuple(o.columns), str(o.columns.dtype), meta_snap(o._metadata), float(o.rate))
+        return ("T", type(o).__name__, _arr(o.index), vals, _arr(o.time_support.values), float(o.rate))
+    except Exception as ex:
+        return ("BROKEN", type(ex).__name__)
+
+
+def arg_snap(nap, a, depth=0):
+    """snapshot of a caller-supplied argument of any accepted form"""
+    if isinstance(a, (nap.Ts, nap.Tsd, nap.TsdFrame, nap.TsdTensor, nap.TsGroup, nap.IntervalSet)):
+        return ("O", id(a))         # a library object inside a caller's list / dict: the container must keep holding THIS object; its content is followed in the live store
+    if isinstance(a, np.ndarray):
+        return ("A", _arr(a))
+    if isinstance(a, pd.DataFrame):
+        return ("DF", meta_snap(a))
+    if isinstance(a, pd.Series):
+        return ("S", str(a.dtype), a.name, _arr(a.index), _arr(a.to_numpy()))
+    if isinstance(a, pd.Index):
+        return ("I", _arr(a))
+    if isinstance(a, (list, tuple)) and depth < 4:
+        return ("L" if isinstance(a, list) else "TU", tuple(arg_snap(nap, e, depth + 1) for e in a))
+    if isinstance(a, dict) and depth < 4:
+        return ("D", tuple(a.keys()), tuple(arg_snap(nap, v, depth + 1) for v in a.values()))
+    if isinstance(a, (int, float, str, bool, type(None), np.generic, complex)):
+        return ("V", type(a).__name__, a)
+    return ("X", id(a))
+
+
+def cls_of(nap, o):
+    return H.class_name(nap, o)
+
+
+class Forms:
+    """engine of part (f): a store of live objects and of caller-supplied arguments; every call is run between two exact snapshots of ALL of them"""
+
+    def __init__(self, res, nap, seed, wid, axes):
+        self.res, self.nap, self.seed, self.wid, self.axes = res, nap, seed, wid, axes
+        self.live, self.lsnap, self.lname = [], [], []
+        self.caller, self.csnap = {}, {}
+        self.donors = {}        # id(object) -> names of the caller arguments the (support-less) constructor documents as kept
+        self.done, self.raised = {}, {}
+        self.max_live = 30
+        self.n = 0
+        self.tier = "quick"
+
+    def arg(self, name, a):
+        k, n = name, 1
+        while k in self.caller:
+            n += 1
+            k = "%s#%d" % (name, n)
+        self.caller[k] = a
+        self.csnap[k] = arg_snap(self.nap, a)
+        return a
+
+    def add(self, name, o):
+        nap = self.nap
+        for y in H.flatten_outputs(nap, o):
+            if any(y is z for z in self.live):
+                continue
+            if len(self.live) >= self.max_live:
+                break
+            self.live.append(y); self.lsnap.append(fstate(nap, y)); self.lname.append(name)
+        return o
+
+    def _inp(self, op, label, forms):
+        return {"form_world": [self.seed, self.wid, self.tier], "axes": self.axes, "op": op, "call": label, "forms": forms}
+
+    def run(self, op, label, thunk, forms=None, extra=None, mutates=(), keep=True):
+        """one public call. `extra`: caller arguments of this call only ({name: value}); `mutates`: the objects a sanctioned mutator addresses"""
+        res, nap = self.res, self.nap
+        forms = forms or {}
+        ex_snap = {k: arg_snap(nap, v) for k, v in (extra or {}).items()}
+        self.n += 1
+        res.case(("form", self.wid, self.n, op), nontrivial=bool(self.live))
+        res.count("form_op=" + op)
+        for k, v in forms.items():
+            res.count("form:%s=%s" % (k, v))
+        out, ok = None, True
+        try:
+            out = thunk()
+        except Exception as ex:
+            ok = False
+            self.raised.setdefault(op, []).append("%s: %s: %s" % (label, type(ex).__name__, str(ex)[:120]))
+            res.count("form_exception=" + op)
+        if ok:
+            self.done[op] = self.done.get(op, 0) + 1
+        allowed_callers = set()
+        for m in mutates:
+            allowed_callers.update(self.donors.get(id(m), ()))
+        for k, v in list(self.caller.items()) + list((extra or {}).items()):
+            sn = self.csnap[k] if k in self.csnap else ex_snap[k]
+            now = arg_snap(nap, v)
+            if not fs_equal(sn, now):
+                if k in self.csnap:
+                    self.csnap[k] = now
+                if k in allowed_callers:
+                    continue
+                res.violations.append({"key": {"op": op, "part": "caller_array_modified", "array": k.split("#")[0], "forms": True},
+                                       "what": "a caller-supplied argument (%s, %s) was modified by %s [%s]" % (k, type(v).__name__, op, label), "input": self._inp(op, label, forms)})
+        holders = [o for o in self.live if isinstance(o, nap.TsGroup) and any(any(mm is m for m in mutates) for mm in o.data.values())]
+        for i, o in enumerate(self.live):
+            now = fstate(nap, o)
+            if fs_equal(self.lsnap[i], now):
+                continue
+            self.lsnap[i] = now
+            if any(o is m for m in mutates) or (len(holders) == 1 and o is holders[0]):
+                continue
+            part = "visible_through_other_object" if mutates else "argument_modified"
+            res.violations.append({"key": {"op": op, "part": part, "object": cls_of(nap, o), "forms": True},
+                                   "what": "a live %s (%s) changed across %s [%s]" % (cls_of(nap, o), self.lname[i], op, label), "input": self._inp(op, label, forms)})
+        if ok and keep:
+            self.add(op, out)
+        return out if ok else None
+
+
+def pk(rng, f, args):
+    """the call f(args) with a random prefix of the arguments given positionally and the rest by keyword; returns (thunk, number of positional arguments)"""
+    try:
+        names = [n for n, p_ in inspect.signature(f).parameters.items() if p_.kind in (p_.POSITIONAL_ONLY, p_.POSITIONAL_OR_KEYWORD)]
+    except (TypeError, ValueError):
+        names = [n for n, _ in args]
+    kmax = 0
+    while kmax < len(args) and kmax < len(names) and args[kmax][0] == names[kmax]:
+        kmax += 1
+    k = rng.randint(0, kmax)
+    pos = [v for _, v in args[:k]]
+    kw = {n: v for n, v in args[k:]}
+    return (lambda: f(*pos, **kw)), k
+
+
+def sc(rng, v, kinds=("float", "int", "np.float64", "np.int64", "np.float32")):
+    """the scalar v in another accepted spelling (only spellings that denote the same number are used)"""
+    kind = rng.choice(kinds)
+    if kind == "int" and float(v) == int(v):
+        return int(v), "int"
+    if kind == "np.int64" and float(v) == int(v):
+        return np.int64(int(v)), "np.int64"
+    if kind == "np.int32" and float(v) == int(v) and abs(v) < 2**31:
+        return np.int32(int(v)), "np.int32"
+    if kind == "np.float32" and float(np.float32(v)) == float(v):
+        return np.float32(v), "np.float32"
+    if kind == "np.float64":
+        return np.float64(v), "np.float64"
+    if kind == "0d":
+        return np.array(float(v)), "0d"
+    return float(v), "float"
+
+
+def in_unit(v, u):
+    return v * UNIT_F[u]
+
+
+def tform(F, rng, tsec, tf, unit, donor=None):
+    """timestamps `tsec` (float64 seconds) in the form `tf`, expressed in `unit`; the value is registered as a caller argument. returns (argument, unit actually meant)"""
+    v = np.asarray(tsec, dtype=np.float64) * UNIT_F[unit]
+    if tf in ("tsindex", "x.t"):
+        if donor is None or len(donor) != len(tsec):
+            donor = F.add("donor_ts", F.nap.Ts(np.asarray(tsec, dtype=np.float64).copy(), time_support=F.nap.IntervalSet(float(np.min(tsec)) - 1, float(np.max(tsec)) + 1)) if len(tsec) else F.nap.Ts(np.array([])))
+        return (donor.index if tf == "tsindex" else donor.t), "s"
+    if tf == "ndarray":
+        a = v.copy()
+    elif tf == "float32":
+        a = v.astype(np.float32)
+    elif tf in ("int64", "int32", "uint8", "uint16", "uint32", "uint64"):
+        r = np.rint(v)
+        dt = np.dtype(tf)
+        if len(r) and (dt.kind == "u" and r.min() < 0 or r.max() > np.iinfo(dt).max or r.min() < np.iinfo(dt).min):
+            dt = np.dtype("int64")
+        a = r.astype(dt)
+    elif tf == "list":
+        a = [float(x) for x in v]
+    elif tf == "int_list":
+        a = [int(round(x)) for x in v]
+    elif tf == "tuple":
+        a = tuple(float(x) for x in v)
+    elif tf == "series":
+        a = pd.Series(v.copy())
+    elif tf == "pdindex":
+        a = pd.Index(v.copy())
+    elif tf == "unsorted":
+        a = v.copy()
+        if len(a) >= 2:
+            a[[0, -1]] = a[[-1, 0]]
+    elif tf == "strided_view":
+        big = F.arg("t_base", np.repeat(v, 2))
+        return big[::2], unit
+    else:
+        raise ValueError(tf)
+    return F.arg("t", a), unit
+
+
+def make_data(rng, n, shape, dtype, special):
+    """values of the given dtype; NaN / infinities only exist for floating dtypes"""
+    size = int(n * int(np.prod(shape)))
+    base = (np.arange(size) % 7 + 1).astype(np.float64)
+    if special == "all_equal":
+        base[:] = 3.0
+    elif special == "zeros":
+        base[:] = 0.0
+    dt = np.dtype(dtype)
+    if dt.kind == "b":
+        a = (np.arange(size) % 2 == 0) if special not in ("all_equal", "zeros") else np.full(size, special == "all_equal")
+    else:
+        a = base.astype(dt)
+    a = a.reshape((n,) + tuple(shape))
+    if dt.kind == "f" and n:
+        rows = list(range(n))
+        rng.shuffle(rows)
+        if special in ("nan", "mix"):
+            for r in rows[: max(1, n // 5)]:
+                a[r] = np.nan
+        if special in ("+inf", "mix", "inf_pair"):
+            a[rows[-1]] = np.inf
+        if special in ("-inf", "mix", "inf_pair") and n >= 2:
+            a[rows[-2]] = -np.inf
+            if special == "inf_pair" and a.ndim > 1:      # +inf and -inf in ONE row: the row sum is NaN although no entry is
+                a[rows[-2]].flat[0] = np.inf
+    return a
+
+
+def build_world(F, rng):
+    """the live objects of one world, built through the public constructors in the forms drawn into F.axes (every constructor call is a guarded call)"""
+    nap, ax = F.nap, F.axes
+    off = PLACES[ax["place"]]
+    unit = ax["unit"]
+    size = ax["size"]
+    n = {"many": rng.randint(12, 40), "one": 1, "empty": 0, "dup": rng.randint(8, 20), "equal_times": 5, "two": 2}[size]
+    ks = sorted(rng.sample(range(0, 60), n)) if size not in ("dup", "equal_times") else sorted(rng.choices(range(0, 60, 4), k=n))
+    if size == "equal_times":
+        ks = [17] * n
+    tsec = off + np.asarray(ks, dtype=np.float64)
+    W = {"n": n, "tsec": tsec, "off": off}
+    # --- interval sets, in the form axes of start / end
+    s_sec = off + np.array([2.0, 22.0, 44.0]); e_sec = off + np.array([17.0, 38.0, 58.0])     # samples fall exactly on starts and ends (integer seconds)
+    sform = ax["sform"]
+    uf = UNIT_F[unit]
+
+    def sef(v):
+        v = v * uf
+        if sform == "list":
+            return F.arg("se", [float(x) for x in v])
+        if sform == "tuple":
+            return F.arg("se", tuple(float(x) for x in v))
+        if sform == "series":
+            return F.arg("se", pd.Series(v))
+        if sform in ("int64", "int32", "uint32", "uint64", "float32"):
+            dt = np.dtype(sform)
+            if dt.kind == "u" and v.min() < 0:
+                dt = np.dtype("int64")
+            return F.arg("se", np.rint(v).astype(dt))
+        if sform == "unsorted":
+            return F.arg("se", v[::-1].copy())
+        return F.arg("se", v.copy())
+    S, E = sef(s_sec), sef(e_sec)
+    mform = ax["meta"]
+    labs = ["a", "b", "a"]
+    if sform == "unsorted":
+        mform = "none"
+    meta = {"none": None, "dict": {"lab": labs, "w": np.array([1.0, 2.0, 3.0])}, "frame": pd.DataFrame({"lab": labs, "w": [1.0, 2.0, 3.0]}), "dict_tuple": {"lab": tuple(labs)}}[mform]
+    if meta is not None:
+        F.arg("ep_meta", meta)
+    args = [("start", S), ("end", E)] + ([("time_units", unit)] if unit != "s" or rng.random() < 0.3 else []) + ([("metadata", meta)] if meta is not None else [])
+    th, k = pk(rng, nap.IntervalSet, args)
+    ep = F.run("IntervalSet", "ctor(start,end)", th, {"npos": k, "se_form": sform, "unit": unit, "ep_meta": mform})
+    if ep is None:
+        ep = F.add("fallback_ep", nap.IntervalSet(s_sec, e_sec))
+    W["ep"] = ep
+    # other constructor forms of the same intervals
+    pairs = F.arg("pairs", np.stack([s_sec, e_sec], 1) * uf)
+    alt = rng.choice(["pairs_array", "pairs_list", "from_iset", "from_frame", "scalars", "0d", "np_scalars"])
+    if alt == "pairs_array":
+        th = lambda: nap.IntervalSet(pairs, time_units=unit)
+    elif alt == "pairs_list":
+        pl = F.arg("pairs", [[float(a), float(b)] for a, b in pairs])
+        th = lambda: nap.IntervalSet(pl, None, unit)
+    elif alt == "from_iset":
+        th = lambda: nap.IntervalSet(ep)
+    elif alt == "from_frame":
+        df = F.arg("ep_frame", pd.DataFrame({"start": s_sec[::-1] if rng.random() < 0.5 else s_sec, "end": e_sec, "lab": [1, 2, 3]}))
+        th = lambda: nap.IntervalSet(df)
+    elif alt == "scalars":
+        a, b = sc(rng, float(s_sec[0]))[0], sc(rng, float(e_sec[-1]))[0]
+        th = lambda: nap.IntervalSet(a, b)
+    elif alt == "0d":
+        a, b = F.arg("se0d", np.array(float(s_sec[0]))), F.arg("se0d", np.array(float(e_sec[-1])))
+        th = lambda: nap.IntervalSet(start=a, end=b)
+    else:
+        a, b = np.float32(s_sec[0]), np.int64(e_sec[-1])
+        th = lambda: nap.IntervalSet(a, end=b)
+    W["ep2"] = F.run("IntervalSet", "ctor:" + alt, th, {"ep_ctor": alt}) or ep
+    W["ep_empty"] = F.run("IntervalSet", "ctor:empty", rng.choice([lambda: nap.IntervalSet([], []), lambda: nap.IntervalSet(start=np.array([]), end=np.array([]))]), {"ep_ctor": "empty"})
+    W["ep_one"] = F.run("IntervalSet", "ctor:one", lambda: nap.IntervalSet(off - 5.0, off + 70.0), {"ep_ctor": "one"})
+    ms = off + np.arange(0.0, 60.0, 5.0)
+    W["ep_many"] = F.run("IntervalSet", "ctor:many", lambda: nap.IntervalSet(ms, ms + rng.choice([0.5, 1.0, 3.0])), {"ep_ctor": "many"})      # intervals holding zero or one sample
+    sup = W["ep_one"] if size in ("one", "equal_times", "empty") or rng.random() < 0.4 else (ep if rng.random() < 0.5 else None)
+    W["sup"] = sup
+    dt, sp = ax["dtype"], ax["special"]
+    donor = None
+    # --- the four series classes
+    def ctor(cls, shape, cname):
+        nonlocal donor
+        tf = ax["tform"] if rng.random() < 0.7 else rng.choice(TFORMS)
+        tt, u = tform(F, rng, tsec, tf, unit, donor)
+        args = [("t", tt)]
+        d = None
+        if cls is not nap.Ts:
+            d = make_data(rng, n, shape, dt, sp)
+            dform = rng.choice(["ndarray", "ndarray", "ndarray", "list", "fortran", "view"]) if n else "ndarray"
+            if dform == "list":
+                d = d.tolist()
+            elif dform == "fortran" and d.ndim > 1:
+                d = np.asfortranarray(d)
+            elif dform == "view":
+                big = F.arg("d_base", np.repeat(d, 2, axis=0))
+                d = big[::2]
+            d = F.arg("d", d) if dform != "view" else d
+            args.append(("d", d))
+        mysup = sup
+        if u != "s" or rng.random() < 0.3:
+            args.append(("time_units", u))
+        if mysup is not None:
+            args.append(("time_support", mysup))
+        extra_f = {}
+        if cls is nap.TsdFrame:
+            cform = ax["cols"]
+            cols = {"default": None, "str": ["a", "b", "c"], "int_unsorted": [7, 3, 5], "int_array": np.array([10, 20, 30]), "pdindex": pd.Index(["x", "y", "z"]), "float": [0.5, 1.5, 2.5], "mixed_order": ["c", "a", "b"]}[cform]
+            if cols is not None:
+                F.arg("columns", cols)
+                args.append(("columns", cols))
+            fm = rng.choice(["none", "dict", "frame"])
+            if fm != "none":
+                idx = pd.Index(cols) if cols is not None else pd.RangeIndex(3)
+                m = {"m": [1, 2, 1], "q": np.array(["u", "v", "w"])} if fm == "dict" else pd.DataFrame({"m": [1, 2, 1]}, index=idx)
+                F.arg("frame_meta", m)
+                args.append(("metadata", m))
+            extra_f = {"cols": cform, "frame_meta": fm}
+        # required arguments t, d stay in signature order; the optional ones are shuffled behind them when given by keyword
+        th, k = pk(rng, cls, args) if rng.random() < 0.7 else ((lambda: cls(**dict(args))), 0)
+        fm_ = {"npos": k, "tform": tf, "unit": u, "dtype": dt, "special": sp, "size": size, "support": "given" if mysup is not None else "default"}
+        fm_.update(extra_f)
+        o = F.run(cname, "ctor", th, fm_)
+        if o is not None and mysup is None and isinstance(d, np.ndarray):
+            F.donors[id(o)] = [k_ for k_, v_ in F.caller.items() if isinstance(v_, np.ndarray) and np.shares_memory(v_, d)]
+        if o is not None and donor is None and len(o) == n and n:
+            donor = o
+        return o
+    W["ts"] = ctor(nap.Ts, (), "Ts")
+    W["tsd"] = ctor(nap.Tsd, (), "Tsd")
+    W["frame"] = ctor(nap.TsdFrame, (3,), "TsdFrame")
+    W["tensor"] = ctor(nap.TsdTensor, (2, 2), "TsdTensor")
+    if rng.random() < 0.3 and n:
+        df = F.arg("dataframe", pd.DataFrame(make_data(rng, n, (2,), "float64", "none"), index=tsec * uf, columns=["p", "q"]))
+        fr2 = F.run("TsdFrame", "ctor(DataFrame)", lambda: nap.TsdFrame(df, time_units=unit), {"tform": "DataFrame", "unit": unit})
+        if fr2 is not None:
+            F.donors[id(fr2)] = [k_ for k_, v_ in F.caller.items() if v_ is df]
+    if rng.random() < 0.4 and n:
+        ser = F.arg("series", pd.Series(make_data(rng, n, (), "float64", "none"), index=tsec * uf))
+        ts2 = F.run("Tsd", "ctor(Series)", (lambda: nap.Tsd(ser, time_units=unit)) if rng.random() < 0.5 else (lambda: nap.Tsd(t=ser, time_units=unit, time_support=W["ep_one"])), {"tform": "Series(t,d)", "unit": unit})
+        if ts2 is not None:
+            F.donors[id(ts2)] = [k_ for k_, v_ in F.caller.items() if v_ is ser]
+    # --- groups
+    # a dict of raw timestamp arrays (keys already sorted integers / unsorted / strings): the constructor converts the members, never inside the caller's dict
+    rk = rng.choice([[0, 1, 2], [0, 1, 2], [5, 2, 9], ["1", "0", "2"]])
+    raw = F.arg("group_data", dict(zip(rk, [tsec.copy() * uf, tsec[::2].copy() * uf, [float(x) for x in tsec[1::3] * uf]])))
+    th, k = pk(rng, nap.TsGroup, [("data", raw), ("time_support", W["ep_one"]), ("time_units", unit)])
+    F.run("TsGroup", "ctor(dict of arrays)", th, {"npos": k, "keys": "sorted ints" if rk == [0, 1, 2] else str(type(rk[0]).__name__) + " unsorted", "members": "raw arrays", "unit": unit})
+    kform = ax["keys"]
+    keys = {"0..n-1": [0, 1, 2], "gaps_unsorted": [7, 2, 31], "str": ["10", "2", "31"], "float": [4.0, 1.0, 9.0], "np.int64": [np.int64(5), np.int64(3), np.int64(12)], "multi_digit": ["100", "20", "3"]}[kform]
+    gsup = W["ep_one"] if rng.random() < 0.6 else None
+    mem_form = ax["members"]
+    half = tsec[::2]
+    if mem_form == "Ts":
+        mem = [nap.Ts(tsec.copy(), time_support=gsup), nap.Ts(half.copy(), time_support=gsup), nap.Ts(tsec[1::3].copy(), time_support=gsup)]
+    elif mem_form == "Tsd":
+        mem = [nap.Tsd(tsec.copy(), np.arange(n, dtype=float), time_support=gsup), nap.Tsd(half.copy(), np.arange(len(half), dtype=float) + 10, time_support=gsup), nap.Ts(tsec[1::3].copy(), time_support=gsup)]
+    elif mem_form == "empty_member":
+        mem = [nap.Ts(tsec.copy(), time_support=gsup), nap.Ts(np.array([])), nap.Ts(half.copy(), time_support=gsup)]
+    elif mem_form == "arrays":
+        mem = [F.arg("member_t", tsec.copy() * uf), F.arg("member_t", half.copy() * uf), F.arg("member_t", [float(x) for x in tsec[1::3] * uf])]
+    else:       # live: members are live objects of this world (the same object may sit in two groups)
+        a_ = W["ts"] if W["ts"] is not None else nap.Ts(tsec.copy())
+        b_ = W["tsd"] if W["tsd"] is not None else nap.Ts(half.copy())
+        mem = [a_, b_, a_] if rng.random() < 0.5 else [a_, b_, nap.Ts(half.copy())]
+    for m_ in mem:
+        if isinstance(m_, nap.Ts) or isinstance(m_, nap.Tsd):
+            F.add("member", m_)
+    cont = rng.choice(["dict", "dict", "list", "tuple"]) if kform == "0..n-1" else "dict"
+    data = dict(zip(keys, mem)) if cont == "dict" else (list(mem) if cont == "list" else tuple(mem))
+    F.arg("group_data", data)
+    gm = rng.choice(["none", "dict", "frame", "kwargs"])
+    ikeys = sorted(int(float(k_)) for k_ in keys) if cont == "dict" else [0, 1, 2]
+    gmeta = {"none": None, "kwargs": None, "dict": {"cat": [1, 2, 1], "lab": ["x", "y", "z"]}, "frame": pd.DataFrame({"cat": [1, 2, 1]}, index=ikeys)}[gm]
+    if gmeta is not None:
+        F.arg("group_meta", gmeta)
+    gargs = [("data", data)]
+    if gsup is not None or (n <= 1 or size == "equal_times"):
+        gargs.append(("time_support", gsup if gsup is not None else W["ep_one"]))
+    if mem_form == "arrays" and unit != "s":
+        gargs.append(("time_units", unit))
+    byp = rng.random() < 0.3
+    if byp:
+        gargs.append(("bypass_check", True))
+    if gmeta is not None:
+        gargs.append(("metadata", gmeta))
+    th, k = pk(rng, nap.TsGroup, gargs)
+    if gm == "kwargs":
+        th0, catv = th, F.arg("group_meta", np.array([1, 2, 1]))
+        th = lambda: nap.TsGroup(**dict(gargs), cat=catv)
+    W["group"] = F.run("TsGroup", "ctor", th, {"npos": k, "keys": kform, "members": mem_form, "container": cont, "group_meta": gm, "bypass_check": byp, "group_support": "given" if len(gargs) > 1 and gargs[1][0] == "time_support" else "default"})
+    W["group_empty"] = F.run("TsGroup", "ctor:empty", lambda: nap.TsGroup({}, time_support=W["ep_one"]), {"group": "empty"})
+    g2keys = [41, 40]
+    W["group2"] = F.run("TsGroup", "ctor:second", lambda: nap.TsGroup({g2keys[0]: nap.Ts(tsec[::3].copy()), g2keys[1]: nap.Ts(half.copy())}, time_support=(W["group"].time_support if W["group"] is not None else W["ep_one"]),
+                                                                     metadata=({"cat": [5, 6]} if gm in ("dict", "frame", "kwargs") and gm != "dict" else ({"cat": [5, 6], "lab": ["p", "q"]} if gm == "dict" else None))), {"group": "second"})
+    return W
+
+
+def _pick(rng, xs, k):
+    xs = list(xs)
+    rng.shuffle(xs)
+    return xs[:k]
+
+
+def form_ops(F, rng, W, budget, scratch):
+    """public operations on the live objects of a world, each with its arguments in forms drawn at random (position / keyword, unit, scalar spelling, option values, operand class).
+    Results join the live store and are drawn as operands of later calls."""
+    nap = F.nap
+    off = W["off"]
+
+    def live_of(*cls):
+        return [o for o in F.live if isinstance(o, cls)]
+
+    def series(data=False, min_len=0, jit=False):
+        c = (nap.Tsd, nap.TsdFrame, nap.TsdTensor) if data else (nap.Ts, nap.Tsd, nap.TsdFrame, nap.TsdTensor)
+        xs = [o for o in F.live if isinstance(o, c) and len(o) >= min_len and (not jit or jit_ok(o))]
+        return rng.choice(xs) if xs else None
+
+    def jit_ok(o):
+        """may this object's data reach a numba kernel in this tier (see JIT_DTYPES)"""
+        if isinstance(o, (nap.Ts, nap.TsGroup, nap.IntervalSet)):
+            return True
+        return str(o.dtype) in JIT_DTYPES[F.tier] and (F.tier != "quick" or (isinstance(o.values, np.ndarray) and o.values.flags.c_contiguous))
+
+    def an_ep(nonempty=False):
+        xs = [o for o in live_of(nap.IntervalSet) if len(o) or not nonempty]
+        return rng.choice(xs) if xs else W["ep"]
+
+    def a_group(min_len=0):
+        xs = [o for o in live_of(nap.TsGroup) if len(o) >= min_len]
+        return rng.choice(xs) if xs else None
+
+    def unit_arg(v):
+        u = rng.choice(["s", "ms", "us"])
+        return v * UNIT_F[u], u
+
+    def do(op, label, f, args, forms=None, extra=None, **kw):
+        th, k = pk(rng, f, args)
+        fm = {"npos": k}
+        fm.update(forms or {})
+        return F.run(op, label, th, fm, extra=extra, **kw)
+
+    ops = []
+
+    def reg(name, weight=1):
+        def deco(fn):
+            ops.extend([(name, fn)] * weight)
+            return fn
+        return deco
+
+    @reg("restrict", 3)
+    def _():
+        x, ep = series(), an_ep()
+        do("restrict", cls_of(nap, x), x.restrict, [("iset", ep)], {"recv": cls_of(nap, x), "ep": "empty" if not len(ep) else "own" if ep is x.time_support else str(min(len(ep), 4))})
+        if rng.random() < 0.3:
+            do("restrict", "own_support", x.restrict, [("iset", x.time_support)], {"recv": cls_of(nap, x), "ep": "own"})
+
+    @reg("count", 3)
+    def _():
+        x = series() if rng.random() < 0.7 else (a_group() or series())
+        ep = an_ep()
+        b, u = unit_arg(rng.choice([1.0, 2.0, 0.5, 7.0]))
+        bv, bk = sc(rng, b, ("float", "int", "float", "np.float64"))
+        args = []
+        mode = rng.choice(["bin", "bin_ep", "ep", "none", "all"])
+        if mode in ("bin", "bin_ep", "all"):
+            args.append(("bin_size", bv))
+        elif rng.random() < 0.3:
+            args.append(("bin_size", None))
+        if mode in ("bin_ep", "ep", "all"):
+            args.append(("ep", ep))
+        elif rng.random() < 0.3 and args:
+            args.append(("ep", None))
+        if mode in ("bin", "bin_ep", "all") and (u != "s" or rng.random() < 0.3) and len(args) == 2:
+            args.append(("time_units", u))
+        elif mode in ("bin", "bin_ep", "all"):
+            args[0] = ("bin_size", sc(rng, b / UNIT_F[u], ("float", "int"))[0])
+        if mode == "all" and len(args) == 3:
+            args.append(("dtype", rng.choice([None, np.int32] if F.tier == "quick" else [None, np.int32, "float32", bool])))
+        do("count", "%s:%s" % (cls_of(nap, x), mode), x.count, args, {"recv": cls_of(nap, x), "count_mode": mode, "unit": u, "scalar": bk})
+
+    @reg("bin_average", 2)
+    def _():
+        x = series(data=True, jit=True)
+        if x is None:
+            F.res.count("form_skipped:bin_average(dtype outside the tier's compiled set)")
+            return
+        b, u = unit_arg(rng.choice([1.0, 2.0, 3.0, 0.25]))
+        bv, bk = sc(rng, b, ("float", "np.float64"))
+        args = [("bin_size", bv)]
+        if rng.random() < 0.6:
+            args.append(("ep", an_ep() if rng.random() < 0.8 else None))
+            if u != "s" or rng.random() < 0.3:
+                args.append(("time_units", u))
+            else:
+                args[0] = ("bin_size", b / UNIT_F[u])
+        else:
+            args[0] = ("bin_size", b / UNIT_F[u])
+        do("bin_average", cls_of(nap, x), x.bin_average, args, {"recv": cls_of(nap, x), "scalar": bk, "dtype": str(x.dtype)})
+
+    @reg("value_from", 2)
+    def _():
+        x = series() if rng.random() < 0.75 else (a_group() or series())
+        y = series(data=True)
+        if y is None:
+            return
+        if rng.random() < 0.15:
+            y = x if isinstance(x, (nap.Tsd, nap.TsdFrame, nap.TsdTensor)) else y        # the same live object used twice
+        args = [("tsd" if isinstance(x, nap.TsGroup) else "data", y)]
+        mode = rng.choice(["closest", "before", "after"])
+        r = rng.random()
+        if r < 0.6:
+            args.append(("ep", an_ep() if rng.random() < 0.8 else None))
+            if rng.random() < 0.7:
+                args.append(("mode", mode))
+        elif r < 0.8:
+            args.append(("mode", mode))
+        do("value_from", "%s<-%s" % (cls_of(nap, x), cls_of(nap, y)), x.value_from, args, {"recv": cls_of(nap, x), "source": cls_of(nap, y), "mode": mode if len(args) > 1 and args[-1][0] == "mode" else "default",
+                                                                                            "same_object": x is y})
+
+    @reg("get", 2)
+    def _():
+        x = series() if rng.random() < 0.8 else (a_group() or series())
+        a, b = sorted([off + rng.choice([-3.0, 0.0, 5.0, 17.0, 30.5, 44.0]), off + rng.choice([2.0, 17.0, 38.0, 58.0, 70.0])])
+        u = rng.choice(["s", "ms", "us"])
+        av, ak = sc(rng, a * UNIT_F[u], ("float", "int", "np.float64", "np.int64", "np.float32"))
+        args = [("start", av)]
+        if rng.random() < 0.75:
+            args.append(("end", sc(rng, b * UNIT_F[u])[0]))
+        elif u != "s":
+            args.append(("end", None))
+        if u != "s":
+            args.append(("time_units", u))
+        else:
+            args[0] = ("start", sc(rng, a)[0])
+            if len(args) > 1:
+                args[1] = ("end", sc(rng, b)[0])
+        do("get", cls_of(nap, x), x.get, args, {"recv": cls_of(nap, x), "unit": u, "scalar": ak, "window": len(args) > 1 and args[1][1] is not None})
+        if not isinstance(x, nap.TsGroup) and rng.random() < 0.4:
+            a2 = [("start", float(a))] + ([("end", float(b)), ("time_unit", "s")] if rng.random() < 0.6 else [])
+            do("get_slice", cls_of(nap, x), x.get_slice, a2, keep=False)
+
+    @reg("queries", 2)
+    def _():
+        x = series()
+        u = rng.choice(["s", "ms", "us"])
+        F.run("queries", "times/start/end/as_units", lambda: (x.times(u), x.times(units=u), x.start_time(u), x.end_time(units=u), x.as_units(u) if hasattr(type(x), "as_units") else None, x.start, x.end, x.t, x.index, x.rate, x.time_support, x.shape, len(x), repr(x), str(x)),
+              {"recv": cls_of(nap, x), "unit": u}, keep=False)
+        if not isinstance(x, nap.Ts):
+            F.run("queries", "data views", lambda: (x.d, x.values, x.as_array(), x.data(), x.to_numpy(), np.asarray(x), x.ndim, x.size, x.dtype, x.__array__(), np.array(x, dtype=float)), {"recv": cls_of(nap, x)}, keep=False)
+        if isinstance(x, (nap.Ts, nap.Tsd)):
+            F.run("queries", "as_series", lambda: x.as_series(), {"recv": cls_of(nap, x)}, keep=False)
+        if isinstance(x, nap.TsdFrame):
+            F.run("queries", "as_dataframe", lambda: (x.as_dataframe(), x.columns, x.metadata, x.metadata_columns, x.metadata_index), {"recv": "TsdFrame"}, keep=False)
+        if len(x):
+            g, gk = sc(rng, rng.choice([1.0, 2.0, 5.0]) * UNIT_F[u], ("float", "int", "np.float64", "np.int64", "np.float32"))
+            do("find_support", cls_of(nap, x), x.find_support, [("min_gap", g)] + ([("time_units", u)] if u != "s" else []) if u != "s" else [("min_gap", sc(rng, 2.0)[0])], {"recv": cls_of(nap, x), "unit": u, "scalar": gk})
+        do("copy", cls_of(nap, x), x.copy, [], {"recv": cls_of(nap, x)})
+        if isinstance(x, nap.Ts):
+            v, vk = sc(rng, 2.0, ("float", "int", "np.float32", "np.int64"))
+            do("fillna", "Ts", x.fillna, [("value", v)], {"scalar": vk})
+
+    @reg("slicing", 3)
+    def _():
+        x = series()
+        n = len(x)
+        c = cls_of(nap, x)
+        idx = list(range(n)); rng.shuffle(idx)
+        keys = [("[a:b]", slice(1, max(1, n - 1))), ("[::2]", slice(None, None, 2)), ("[::-1]", slice(None, None, -1)), ("[:]", slice(None)), ("[0:0]", slice(0, 0)), ("[...]", Ellipsis),
+                ("[list non-monotone]", idx[:4]), ("[int array]", np.array(idx[:3], dtype=np.int64)), ("[uint8 array]", np.array(sorted(i for i in idx if i < 256)[:3], dtype=np.uint8)), ("[bool array]", np.arange(n) % 2 == 0),
+                ("[bool list]", [bool(i % 3) for i in range(n)]), ("[all False]", np.zeros(n, dtype=bool))]
+        if n:
+            keys += [("[int]", n // 2), ("[-1]", -1), ("[np.int64]", np.int64(0)), ("[repeated]", [0, 0, n - 1])]
+            keys.append(("[bool Tsd]", nap.Tsd(np.asarray(x.t), np.arange(n) % 2 == 0, time_support=x.time_support)))
+            keys.append(("[get_slice]", x.get_slice(float(x.t[0]), float(x.t[-1]))))
+        if c == "TsdFrame" and x.shape[1] >= 2:
+            cols = list(x.columns)
+            keys += [("[:,0]", (slice(None), 0)), ("[:,[1,0]]", (slice(None), [1, 0])), ("[:,bool]", (slice(None), np.arange(x.shape[1]) % 2 == 0)), ("[a:b,0:2]", (slice(0, 3), slice(0, 2))), ("[:,-1]", (slice(None), -1)),
+                     ("[int,:]", (0, slice(None))) if n else ("[:,0:1]", (slice(None), slice(0, 1)))]
+            if all(isinstance(cc, str) for cc in cols):
+                keys += [("['label']", cols[0]), ("[['l2','l1']]", [cols[1], cols[0]]), ("[('l1','l2')]", (cols[0], cols[1]))]
+            F.run("slicing", "loc[label]", lambda: (x.loc[cols[-1]], x.loc[[cols[1], cols[0]]], x.loc[cols]), {"recv": c, "key": "loc", "cols": str(type(cols[0]).__name__)})
+        if c == "TsdTensor":
+            keys += [("[:,0]", (slice(None), 0)), ("[:,0,1]", (slice(None), 0, 1)), ("[:,:,[1,0]]", (slice(None), slice(None), [1, 0])), ("[...,0]", (Ellipsis, 0)), ("[a:b,None]", (slice(0, 2), None))]
+        if c == "Tsd":
+            keys += [("[:,None]", (slice(None), None))]
+        for lab, key in _pick(rng, keys, 5):
+            F.run("slicing", "%s%s" % (c, lab), lambda key=key: x[key], {"recv": c, "key": lab}, extra={"key": key} if isinstance(key, (list, np.ndarray, tuple)) else None)
+
+    @reg("dropna_threshold", 2)
+    def _():
+        x = series(data=True)
+        if x is None:
+            return
+        c = cls_of(nap, x)
+        r = rng.random()
+        args = [] if r < 0.3 else [("update_time_support", rng.choice([True, False]))]
+        do("dropna", c, x.dropna, args, {"recv": c, "dtype": str(x.dtype), "update_time_support": str(args[0][1]) if args else "default"})
+        xs = live_of(nap.Tsd)
+        if xs:
+            y = rng.choice(xs)
+            m = rng.choice(["above", "below", "aboveequal", "belowequal"])
+            tv, tk = sc(rng, rng.choice([3.0, 0.0, 1.0, 5.0]), ("float",) if F.tier == "quick" else ("float", "int", "np.float64"))
+            if not jit_ok(y):
+                F.res.count("form_skipped:threshold(dtype outside the tier's compiled set)")
+                xs = []
+        if xs:
+            do("threshold", m, y.threshold, [("thr", tv)] + ([("method", m)] if m != "above" or rng.random() < 0.5 else []), {"dtype": str(y.dtype), "method": m, "scalar": tk})
+            if y.dtype.kind in "iub" or (y.dtype.kind == "f" and len(y) and np.all(np.isfinite(y.values))):
+                do("to_tsgroup", str(y.dtype), y.to_tsgroup, [], {"dtype": str(y.dtype)})
+
+    @reg("convolve_smooth", 2)
+    def _():
+        x = series(data=True)
+        if x is None:
+            return
+        c = cls_of(nap, x)
+        kdt = rng.choice(["float64", "float32", "int64", "int16", "uint8", "bool", "halves"])
+        k = np.array([0.5, 1.5, 0.5]) if kdt == "halves" else np.array([1, 2, 1]).astype(kdt)
+        if rng.random() < 0.3:
+            k = np.stack([k, k[::-1] * (1 if kdt == "bool" else 2)], 1)
+        if rng.random() < 0.2:
+            base = np.repeat(k, 2, axis=0); kk = base[::2]
+            extra = {"kernel_base": base}
+        else:
+            kk, extra = k, {"kernel": k}
+        args = [("array", kk)]
+        trim = rng.choice(["both", "left", "right"])
+        r = rng.random()
+        if r < 0.5:
+            args += [("ep", an_ep() if rng.random() < 0.8 else None), ("trim", trim)][: rng.choice([1, 2])]
+        elif r < 0.75:
+            args.append(("trim", trim))
+        do("convolve", c, x.convolve, args, {"recv": c, "dtype": str(x.dtype), "kernel": kdt, "kernel_ndim": kk.ndim, "trim": trim if args[-1][0] == "trim" else "default"}, extra=extra)
+        if len(x) >= 4 and len(x.time_support):
+            u = rng.choice(["s", "ms", "us"])
+            std, sk = sc(rng, rng.choice([1.0, 2.0]) * UNIT_F[u], ("float", "int"))
+            args = [("std", std)]
+            r = rng.random()
+            if r < 0.5:
+                args += [("windowsize", sc(rng, 6.0 * UNIT_F[u], ("float", "int", "np.float64"))[0] if rng.random() < 0.7 else None), ("time_units", u), ("size_factor", rng.choice([3, 5, 100])), ("norm", rng.choice([True, False]))][: rng.randint(2 if u != "s" else 1, 4)]
+            else:
+                args = [("std", sc(rng, 2.0, ("float", "int"))[0]), ("size_factor", rng.choice([3, 5])), ("norm", rng.choice([True, False]))]
+            if not any(a[0] == "time_units" for a in args):
+                args[0] = ("std", sc(rng, 2.0, ("float", "int"))[0])
+            th = lambda: x.smooth(**dict(args)) if rng.random() < 0.5 else None
+            th, kpos = pk(rng, x.smooth, args)
+            F.run("smooth", c, th, {"recv": c, "npos": kpos, "dtype": str(x.dtype), "unit": u if any(a[0] == "time_units" for a in args) else "s", "norm": str(dict(args).get("norm", "default")), "windowsize": "windowsize" in dict(args)})
+
+    @reg("interpolate", 2)
+    def _():
+        x, ts = series(data=True), series()
+        if x is None:
+            return
+        args = [("ts", ts)]
+        r = rng.random()
+        lf = {}
+        if r < 0.7:
+            args.append(("ep", an_ep() if rng.random() < 0.8 else None))
+            if rng.random() < 0.5:
+                l_, lk = sc(rng, -1.0, ("float", "int", "np.float64", "np.float32"))
+                args += [("left", l_), ("right", rng.choice([None, 7, 2.5]))][: rng.choice([1, 2])]
+                lf = {"left": lk}
+        fm = {"recv": cls_of(nap, x), "target": cls_of(nap, ts), "dtype": str(x.dtype), "same_object": x is ts}
+        fm.update(lf)
+        do("interpolate", "%s@%s" % (cls_of(nap, x), cls_of(nap, ts)), x.interpolate, args, fm)
+
+    @reg("trial_tensor", 1)
+    def _():
+        x = series(data=True)
+        ep = an_ep(nonempty=True)
+        if x is None or not len(ep):
+            return
+        al = rng.choice(["start", "end"])
+        pv, pvk = sc(rng, rng.choice([0.0, -1.0]), ("float", "int", "np.float64")) if rng.random() < 0.6 else (np.nan, "nan")
+        args = [("ep", ep)] + [("align", al), ("padding_value", pv)][: rng.randint(0, 2)]
+        do("to_trial_tensor", cls_of(nap, x), x.to_trial_tensor, args, {"recv": cls_of(nap, x), "align": al, "padding": pvk}, keep=False)
+        y = series() if rng.random() < 0.6 else (a_group() or series())
+        if not jit_ok(y):          # build_tensor / warp_tensor call bin_average on the input
+            y = series(jit=True) or rng.choice(live_of(nap.Ts) or [a_group()])
+            if y is None:
+                return
+        b, u = unit_arg(rng.choice([2.0, 5.0]))
+        if isinstance(y, (nap.Ts, nap.TsGroup)):
+            args = [("ep", ep), ("bin_size", sc(rng, b, ("float", "int"))[0]), ("align", al), ("padding_value", pv), ("time_unit", u)][: rng.choice([2, 3, 4, 5, 5])]
+            if len(args) < 5:
+                args[1] = ("bin_size", b / UNIT_F[u])
+            do("trial_count", cls_of(nap, y), y.trial_count, args, {"recv": cls_of(nap, y), "align": al, "unit": u if len(args) == 5 else "s"}, keep=False)
+        args = [("input", y), ("ep", ep)]
+        if isinstance(y, (nap.Ts, nap.TsGroup)) or rng.random() < 0.5:
+            args += [("bin_size", b), ("align", al), ("padding_value", pv), ("time_unit", u)] if rng.random() < 0.6 else [("bin_size", b / UNIT_F[u])]
+        do("build_tensor", cls_of(nap, y), nap.build_tensor, args, {"recv": cls_of(nap, y), "align": al}, keep=False)
+        nb = rng.choice([3, 5, 4]) if rng.random() < 0.9 else 1
+        do("warp_tensor", cls_of(nap, y), nap.warp_tensor, [("input", y), ("ep", ep), ("num_bins", nb)], {"recv": cls_of(nap, y), "num_bins": type(nb).__name__}, keep=False)
+
+    @reg("numpy", 4)
+    def _():
+        x = series(data=True)
+        if x is None:
+            return
+        c, n = cls_of(nap, x), len(x)
+        dt = str(x.dtype)
+        other_dt = rng.choice(["float64", "float32", "int64", "int16", "uint8", "bool"])
+        arr = (np.arange(int(np.prod(x.shape))) % 5 + 1).reshape(x.shape).astype(other_dt)
+        psc, pk_ = rng.choice([(2, "int"), (2.5, "float"), (np.float32(1.5), "np.float32"), (np.int8(3), "np.int8"), (np.uint8(2), "np.uint8"), (True, "bool"), (np.float64(0.5), "np.float64"), (np.array(2.0), "0d")])
+        last = x.ndim - 1
+        cands = [("x*scalar", lambda: x * psc), ("scalar-x", lambda: psc - x), ("x+array", lambda: x + arr), ("array/x", lambda: arr / x), ("x**2", lambda: x ** 2), ("-x", lambda: -x), ("abs", lambda: abs(x)),
+                 ("x//scalar", lambda: x // psc), ("x%scalar", lambda: x % psc), ("x>scalar", lambda: x > psc), ("x==array", lambda: x == arr), ("x&", lambda: (x > 1) & (x.values < 5)), ("~", lambda: ~(x > 2)),
+                 ("np.add(out=)", lambda: np.add(x, psc, out=np.zeros(x.shape))), ("np.multiply(x,array)", lambda: np.multiply(x, arr)), ("np.maximum(array,x)", lambda: np.maximum(arr, x)),
+                 ("np.where(3 operands)", lambda: np.where(x > 2, x, arr)), ("np.clip(kw)", lambda: np.clip(x, a_min=1, a_max=psc if pk_ != "bool" else 4)), ("np.clip(pos)", lambda: np.clip(x, 1, 4)),
+                 ("np.sum(axis kw)", lambda: np.sum(x, axis=last)), ("np.sum(axis pos)", lambda: np.sum(x, last)), ("np.sum(axis=0)", lambda: np.sum(x, axis=0)), ("np.sum(axis=-1)", lambda: np.sum(x, axis=-1)),
+                 ("np.mean(keepdims)", lambda: np.mean(x, axis=0, keepdims=True)), ("np.mean(tuple axis)", lambda: np.mean(x, axis=tuple(range(1, x.ndim))) if x.ndim > 1 else np.mean(x)),
+                 ("x.sum()", lambda: x.sum()), ("x.mean(0)", lambda: x.mean(0)), ("x.max(axis=0)", lambda: x.max(axis=0)), ("x.astype", lambda: x.astype(other_dt)), ("x.astype(copy=False)", lambda: x.astype(x.dtype, copy=False)),
+                 ("x.cumsum(0)", lambda: x.cumsum(0)), ("np.cumsum(axis=0)", lambda: np.cumsum(x, axis=0)), ("np.cumprod", lambda: np.cumprod(x, 0)), ("np.diff", lambda: np.diff(x, axis=0)), ("np.diff(n=2,prepend)", lambda: np.diff(x, 1, 0, x[0:1].values) if n else None),
+                 ("np.nan_to_num", lambda: np.nan_to_num(x)), ("np.nan_to_num(kw)", lambda: np.nan_to_num(x, nan=0.0, posinf=9.0, neginf=-9.0)), ("np.isnan", lambda: np.isnan(x) if x.dtype.kind == "f" else np.isfinite(x)),
+                 ("np.sign", lambda: np.sign(x) if x.dtype.kind != "b" else np.logical_not(x)), ("np.sqrt", lambda: np.sqrt(x)), ("np.exp", lambda: np.exp(x)), ("np.round", lambda: np.round(x, 1) if x.dtype.kind != "b" else np.copy(x)),
+                 ("np.flip(axis kw)", lambda: np.flip(x, axis=0)), ("np.flip(pos)", lambda: np.flip(x, 0)), ("np.roll", lambda: np.roll(x, shift=1, axis=0)), ("np.take", lambda: np.take(x, [0, -1], axis=0) if n else None),
+                 ("np.delete", lambda: np.delete(x, [0], axis=0) if n else None), ("np.repeat", lambda: np.repeat(x, 2, axis=last)), ("np.tile", lambda: np.tile(x, 2) if x.ndim == 1 else np.tile(x, (1, 2) + (1,) * (x.ndim - 2))),
+                 ("np.reshape", lambda: np.reshape(x, (n, -1))), ("np.reshape(kw)", lambda: x.reshape((n, -1))), ("np.ravel", lambda: np.ravel(x)), ("np.squeeze", lambda: np.squeeze(x)), ("np.expand_dims", lambda: np.expand_dims(x, axis=-1)),
+                 ("np.transpose", lambda: np.transpose(x)), ("np.swapaxes", lambda: np.swapaxes(x, 0, last)), ("np.moveaxis", lambda: np.moveaxis(x, source=last, destination=0)),
+                 ("np.concatenate(pos axis)", lambda: np.concatenate((x[: n // 2], x[n // 2:]), 0)), ("np.concatenate(kw axis)", lambda: np.concatenate([x[: n // 2], x[n // 2:]], axis=0)),
+                 ("np.concatenate(3 operands)", lambda: np.concatenate((x[: n // 3], x[n // 3: 2 * n // 3], x[2 * n // 3:]))), ("np.concatenate(same twice)", lambda: np.concatenate((x, x), axis=last) if x.ndim > 1 else np.concatenate((x, x))),
+                 ("np.vstack", lambda: np.vstack((x[: n // 2], x[n // 2:]))), ("np.hstack", lambda: np.hstack((x, x))), ("np.dstack", lambda: np.dstack((x, x))), ("np.stack?", lambda: np.stack((x, x), axis=-1)),
+                 ("np.split", lambda: np.split(x, 2) if n % 2 == 0 and n else np.array_split(x, 2)), ("np.array_split(kw)", lambda: np.array_split(x, indices_or_sections=3, axis=0)), ("np.split(indices)", lambda: np.split(x, [1, n // 2]) if n >= 3 else None),
+                 ("np.hsplit", lambda: np.hsplit(x, 1) if x.ndim > 1 else None), ("np.sort", lambda: np.sort(x, axis=0)), ("np.argsort", lambda: np.argsort(x, axis=0)), ("np.unique", lambda: np.unique(x)),
+                 ("np.argmax", lambda: np.argmax(x, axis=0) if n else None), ("np.median", lambda: np.median(x, axis=0)), ("np.std", lambda: np.std(x, axis=0, ddof=0)), ("np.nanmean", lambda: np.nanmean(x, axis=0)),
+                 ("np.percentile", lambda: np.percentile(x, 50, axis=0) if n and x.dtype.kind != "b" else None), ("np.histogram", lambda: np.histogram(x, bins=3) if n and x.dtype.kind != "b" and np.all(np.isfinite(np.asarray(x, dtype=float))) else None),
+                 ("np.dot", lambda: np.dot(np.ones(n), x) if x.dtype.kind != "b" else None), ("np.einsum?", lambda: np.tensordot(np.ones(n), x, 1) if x.dtype.kind != "b" else None), ("np.convolve", lambda: np.convolve(x, [1, 1]) if x.ndim == 1 and n else None),
+                 ("np.interp", lambda: np.interp([0.5], np.arange(n), x) if x.ndim == 1 and n else None), ("np.gradient", lambda: np.gradient(x, axis=0) if n >= 2 and x.dtype.kind != "b" else None), ("np.pad", lambda: np.pad(x, [(1, 1)] + [(0, 0)] * (x.ndim - 1))),
+                 ("np.insert", lambda: np.insert(x, 0, 0, axis=0)), ("np.append", lambda: np.append(x, x, axis=0)), ("np.array(x)", lambda: np.array(x)), ("np.copy", lambda: np.copy(x)), ("np.zeros_like", lambda: (np.zeros_like(x), np.ones_like(x), np.full_like(x, 2))),
+                 ("x+x.values (shared memory)", lambda: x + x.values), ("np.where(x>2,x,x.values)", lambda: np.where(x > 2, x, x.values)), ("np.concatenate((x.values,x))", lambda: np.concatenate((x.values, x))),
+                 ("x+=1 on an alias", lambda: _iop(x, "iadd", 1)), ("x*=scalar on an alias", lambda: _iop(x, "imul", psc)), ("x-=array on an alias", lambda: _iop(x, "isub", arr))]
+        for lab, f in _pick(rng, cands, 9):
+            F.run("numpy", lab, f, {"recv": c, "dtype": dt, "np_call": lab, "operand_dtype": other_dt if "array" in lab or "astype" in lab else "-", "py_scalar": pk_ if "scalar" in lab or "out=" in lab else "-"}, extra={"operand": arr})
+
+    @reg("frame_meta", 2)
+    def _():
+        xs = live_of(nap.TsdFrame)
+        if not xs:
+            return
+        fr = rng.choice(xs)
+        mc = fr.metadata_columns
+        if mc:
+            col = rng.choice(mc)
+            F.run("get_info", "TsdFrame", lambda: (fr.get_info(col), fr[col], fr.get_info([col]), fr.get_info(slice(0, 1)), getattr(fr, col) if col.isidentifier() else None), {"recv": "TsdFrame"}, keep=False)
+            if "m" in mc:
+                do("groupby", "TsdFrame", fr.groupby, [("by", "m")] + ([("get_group", 1)] if rng.random() < 0.5 else []), {"recv": "TsdFrame"})
+                fn = rng.choice([np.mean, lambda z: z, lambda z: np.sum(z, 1), len])
+                args = [("by", "m"), ("func", fn)]
+                F.run("groupby_apply", "TsdFrame", pk(rng, fr.groupby_apply, args)[0], {"recv": "TsdFrame"})
+                if rng.random() < 0.4:
+                    F.run("groupby_apply", "TsdFrame input_key", lambda: fr.groupby_apply("m", np.clip, "a", a_min=0, a_max=2), {"recv": "TsdFrame", "input_key": True})
+
+    @reg("group", 4)
+    def _():
+        g = a_group()
+        if g is None:
+            return
+        ng = len(g)
+        ks = g.keys()
+        ep = an_ep()
+        mc = [c_ for c_ in g.metadata_columns if c_ != "rate"]
+        r = rng.random()
+        if r < 0.25:
+            do("group.restrict", "n=%d" % min(ng, 3), g.restrict, [("ep", ep)], {"group_size": min(ng, 3)})
+        elif r < 0.5 and ng:
+            sh = list(ks); rng.shuffle(sh)
+            keyforms = [("int", sh[0]), ("np.int64", np.int64(sh[0])), ("list unsorted", sh), ("list one", [sh[0]]), ("int array", np.array(sh[:2])), ("bool array", np.arange(ng) % 2 == 0), ("bool list", [True] * ng),
+                        ("rate mask", g.rate >= 0), ("'rate'", "rate"), ("float key", float(sh[0])), ("['rate']", ["rate"])]
+            for lab, key in _pick(rng, keyforms, 4):
+                F.run("group[]", lab, lambda key=key: g[key], {"group_key": lab}, extra={"key": key} if not isinstance(key, (int, float, str, np.generic)) else None)
+        elif r < 0.62 and ng:
+            forms = [("none", []), ("str", [mc[0]]) if mc else ("none", []), ("ndarray", [np.arange(ng, dtype=float)]), ("list", [list(range(ng))]), ("int array", [np.arange(ng)]), ("series", [pd.Series(np.arange(ng, dtype=float), index=g.index)])]
+            lab, a = rng.choice(forms)
+            F.run("to_tsd", lab, lambda: g.to_tsd(*a), {"to_tsd_arg": lab}, extra={"arg": a[0]} if a else None)
+        elif r < 0.8 and ng:
+            op_ = rng.choice([">", "<", ">=", "<="])
+            thr, tk = sc(rng, 0.0, ("float", "int", "np.float64"))
+            do("getby_threshold", op_, g.getby_threshold, [("key", "rate"), ("thr", thr)] + ([("op", op_)] if op_ != ">" or rng.random() < 0.5 else []), {"op_": op_, "scalar": tk})
+            fin = np.asarray(g.rate, dtype=float)[np.isfinite(np.asarray(g.rate, dtype=float))]
+            hi = min(float(fin.max()), 1e6) + 1.0 if len(fin) else 1.0
+            bform = rng.choice(["float array", "int array", "list", "float32"])
+            bins = {"float array": np.array([0.0, hi / 2, hi]), "int array": np.array([0, int(hi) + 1, 2 * int(hi) + 2]), "list": [0.0, hi / 2, hi], "float32": np.array([0.0, hi / 2, hi], dtype=np.float32)}[bform]
+            do("getby_intervals", bform, g.getby_intervals, [("key", "rate"), ("bins", bins)], {"bins": bform}, extra={"bins": bins})
+            if mc:
+                do("getby_category", mc[0], g.getby_category, [("key", mc[0])])
+                do("group.groupby", mc[0], g.groupby, [("by", mc[0])], keep=False)
+                do("group.groupby_apply", mc[0], g.groupby_apply, [("by", mc[0]), ("func", rng.choice([len, lambda z: z, lambda z: z.count(5.0)]))])
+                F.run("group.get_info", mc[0], lambda: (g.get_info(mc[0]), g[mc[0]], g.get_info(ks[0]), g.metadata, g.rates, g.rate, g.metadata_columns, g.index, g.keys(), g.values(), g.items(), repr(g)), keep=False)
+        else:
+            others = [h for h in live_of(nap.TsGroup) if h is not g and len(h)]
+            if not others or not ng:
+                return
+            h = rng.choice(others)
+            ri, rt, im = rng.random() < 0.5, rng.random() < 0.5, rng.random() < 0.5
+            three = rng.random() < 0.3
+            operands = (g, h, g) if three else ((g, g) if rng.random() < 0.15 else (g, h))
+            if three or operands[1] is g:
+                ri = True
+            # mostly valid combinations (an invalid one must raise cleanly and change nothing: kept with probability 0.15)
+            if rng.random() < 0.85:
+                if any(set(a_.keys()) & set(b_.keys()) for i_, a_ in enumerate(operands) for b_ in operands[i_ + 1:]):
+                    ri = True
+                if any(not np.array_equal(a_.time_support.values, g.time_support.values) for a_ in operands):
+                    rt = True
+                if any(a_.metadata_columns != g.metadata_columns for a_ in operands):
+                    im = True
+            kw = {}
+            if ri or rng.random() < 0.3:
+                kw["reset_index"] = ri
+            if rt or rng.random() < 0.3:
+                kw["reset_time_support"] = rt
+            if im or rng.random() < 0.3:
+                kw["ignore_metadata"] = im
+            static = rng.random() < 0.5
+            F.run("merge", "%s ri%d rt%d im%d n%d" % ("TsGroup.merge_group" if static else "g.merge", ri, rt, im, len(operands)), (lambda: nap.TsGroup.merge_group(*operands, **kw)) if static else (lambda: operands[0].merge(*operands[1:], **kw)),
+                  {"merge_flags": "ri%d_rt%d_im%d" % (ri, rt, im), "n_operands": len(operands), "same_object": operands[1] is g, "merge_call": "static" if static else "method"})
+
+    @reg("ep", 4)
+    def _():
+        ep, e2 = an_ep(), an_ep()
+        if rng.random() < 0.15:
+            e2 = ep
+        setop = rng.choice(["union", "intersect", "set_diff"])
+        do("ep." + setop, "m%d/m%d" % (len(ep.metadata_columns) > 0, len(e2.metadata_columns) > 0), getattr(ep, setop), [("a", e2)], {"set_op": setop, "recv_meta": len(ep.metadata_columns) > 0, "arg_meta": len(e2.metadata_columns) > 0,
+                                                                                                                                   "recv_len": min(len(ep), 4), "arg_len": min(len(e2), 4), "same_object": ep is e2})
+        u = rng.choice(["s", "ms", "us"])
+        thr, tk = sc(rng, rng.choice([1.0, 5.0, 15.0, 20.0]) * UNIT_F[u], ("float", "int", "np.float64", "np.int64", "np.float32"))
+        name = rng.choice(["drop_short_intervals", "drop_long_intervals", "merge_close_intervals", "split"])
+        args = [("interval_size" if name == "split" else "threshold", thr)] + ([("time_units", u)] if u != "s" or rng.random() < 0.3 else [])
+        if u == "s" and len(args) == 1:
+            args = [(args[0][0], sc(rng, 5.0)[0])]
+        do("ep." + name, u, getattr(ep, name), args, {"unit": u, "scalar": tk, "recv_len": min(len(ep), 4), "recv_meta": len(ep.metadata_columns) > 0})
+        x = series()
+        F.run("ep.queries", "in_interval etc", lambda: (ep.in_interval(x), ep.tot_length(), ep.tot_length(u), ep.tot_length(time_units=u), ep.as_units(u), ep.as_units(units=u), ep.as_dataframe(), ep.metadata, ep.start, ep.end, ep.values,
+                                                       ep.shape, ep.index, ep.columns, np.asarray(ep), np.array(ep, dtype=float), repr(ep), ep.starts, ep.ends, np.sum(ep), np.diff(ep, axis=1), ep + 1.0, ep * 2, ep > 3.0, np.ravel(ep)),
+              {"recv_len": min(len(ep), 4)}, keep=False)
+        if len(ep):
+            al, ak = rng.choice([(0.5, "default"), (0.0, "0.0"), (1.0, "1.0"), (0.25, "0.25")])
+            do("ep.get_intervals_center", ak, ep.get_intervals_center, [] if ak == "default" and rng.random() < 0.5 else [("alpha", al)], {"alpha": ak})
+            do("ep.time_span", "", ep.time_span, [])
+        n = len(ep)
+        keys = [("[int]", 0), ("[-1]", -1), ("[slice]", slice(0, 2)), ("[list]", [0]), ("[list reversed]", list(range(n))[::-1]), ("[int array]", np.arange(n)[::2]), ("[bool array]", np.arange(n) % 2 == 0), ("[series bool]", pd.Series(np.arange(n) % 2 == 0)),
+                ("[pd.Index]", pd.Index(np.arange(n)[:1])), ("['start']", "start"), ("['end']", "end"), ("[['start','end']]", ["start", "end"]), ("[['end']]", ["end"]), ("[0,0]", (0, 0)), ("[:,1]", (slice(None), 1)), ("[0,'start']", (0, "start")),
+                ("[[0],['start','end']]", ([0], ["start", "end"])), ("[:,:]", (slice(None), slice(None))), ("[0:2,0:2]", (slice(0, 2), slice(0, 2))), ("[0,[0,1]]", (0, [0, 1])), ("[np.int64]", np.int64(0))]
+        if ep.metadata_columns:
+            mcol = ep.metadata_columns[0]
+            keys += [("['meta']", mcol), ("[0,'meta']", (0, mcol)), ("[['start','meta']]", ["start", mcol])]
+            F.run("ep.meta", mcol, lambda: (ep.get_info(mcol), ep.groupby(mcol), ep.groupby_apply(mcol, lambda z: z.tot_length()), ep.groupby(mcol, get_group=ep.get_info(mcol).iloc[0]) if n else None))
+        for lab, key in _pick(rng, keys, 4):
+            F.run("ep[]", lab, lambda key=key: ep[key], {"ep_key": lab, "recv_len": min(n, 4)}, extra={"key": key} if isinstance(key, (list, np.ndarray, tuple, pd.Series, pd.Index)) else None)
+        if n and rng.random() < 0.5:
+            F.run("ep.loc", "", lambda: (ep.loc[0], ep.loc[[0]], ep.loc["start"], ep.loc[0, "end"], ep.loc[[0], "start"]), keep=False)
+
+    @reg("save_load", 1)
+    def _():
+        o = rng.choice(F.live)
+        c = cls_of(nap, o)
+        pform = rng.choice(["str", "str_noext", "Path"])
+        base = os.path.join(scratch, "w%d_%d" % (F.wid, rng.randrange(10**6)))
+        path = {"str": base + ".npz", "str_noext": base, "Path": __import__("pathlib").Path(base + ".npz")}[pform]
+        r = do("save", c, o.save, [("filename", path)], {"recv": c, "path": pform}, keep=False)
+        if os.path.exists(base + ".npz"):
+            F.run("load_file", c, lambda: nap.load_file(base + ".npz"), {"recv": c})
+
+    @reg("mutators", 3)
+    def _():
+        cands = []
+        for o in F.live:
+            if isinstance(o, (nap.Tsd, nap.TsdFrame, nap.TsdTensor)) and len(o):
+                cands.append(("setitem", o))
+            if isinstance(o, (nap.TsdFrame, nap.IntervalSet, nap.TsGroup)) and len(o.metadata_index):
+                cands.append(("set_info", o))
+            if isinstance(o, nap.TsGroup) and any(isinstance(m, nap.Tsd) and len(m) for m in o.values()):
+                cands.append(("member_setitem", o))
+        if not cands:
+            return
+        kind, o = rng.choice(cands)
+        c = cls_of(nap, o)
+        if kind == "member_setitem":
+            o = rng.choice([m for m in o.values() if isinstance(m, nap.Tsd) and len(m)])
+            kind = "setitem"
+        if kind == "setitem":
+            n = len(o)
+            val = rng.choice([(-99.0, "float"), (7, "int"), (np.float32(2.5), "np.float32"), (np.int16(3), "np.int16"), (True, "bool")])
+            keys = [("[int]", rng.randrange(n)), ("[slice]", slice(0, 2)), ("[list]", [0, n - 1]), ("[bool array]", np.arange(n) % 2 == 0), ("[...]", Ellipsis), ("[-1]", -1),
+                    ("[bool Tsd]", nap.Tsd(np.asarray(o.t), np.arange(n) % 2 == 1, time_support=o.time_support))]
+            if isinstance(o, nap.TsdFrame) and o.shape[1]:
+                keys += [("[:,0]", (slice(None), 0)), ("[int,int]", (0, 0))]
+                if isinstance(o.columns[0], str):
+                    keys += [("['label']", o.columns[0]), ("[['l']]", [o.columns[0]])]
+            if isinstance(o, nap.TsdTensor):
+                keys += [("[:,0,0]", (slice(None), 0, 0))]
+            lab, key = rng.choice(keys)
+            vform = rng.choice(["scalar", "scalar", "array"])
+            v = val[0]
+            ex = None
+            if vform == "array" and lab in ("[slice]", "[...]", "[:,0]", "['label']"):
+                v = np.full(np.shape(o.values[key] if lab != "['label']" else o.values[:, 0]), 5.0)
+                ex = {"value": v}
+            F.run("setitem", "%s%s" % (cls_of(nap, o), lab), lambda: o.__setitem__(key, v), {"recv": cls_of(nap, o), "dtype": str(o.dtype), "key": lab, "value": val[1] if ex is None else "array"}, extra=ex, mutates=(o,), keep=False)
+        else:
+            m = len(o.metadata_index)
+            form = rng.choice(["kw list", "kw array", "kw tuple", "kw series", "dict", "frame", "attribute", "item", "dict+kw", "kw scalar" if m == 1 else "kw list"])
+            name = rng.choice(["zz", "yy", "lab2"])
+            vals = [rng.randrange(100) for _ in range(m)]
+            idx = o.metadata_index
+            if form == "kw list":
+                a = list(vals); th = lambda: o.set_info(**{name: a})
+            elif form == "kw array":
+                a = np.array(vals, dtype=rng.choice(["int64", "float32", "uint8"])); th = lambda: o.set_info(**{name: a})
+            elif form == "kw tuple":
+                a = tuple(vals); th = lambda: o.set_info(**{name: a})
+            elif form == "kw series":
+                a = pd.Series(vals, index=idx); th = lambda: o.set_info(**{name: a})
+            elif form == "dict":
+                a = {name: list(vals), "ww": np.array(vals, dtype=float)}; th = lambda: o.set_info(a) if rng.random() < 0.5 else o.set_info(metadata=a)
+            elif form == "frame":
+                a = pd.DataFrame({name: vals, "ww": np.array(vals, dtype=float)}, index=idx); th = lambda: o.set_info(a)
+            elif form == "attribute":
+                a = np.array(vals); th = lambda: setattr(o, name, a)
+            elif form == "item":
+                a = list(vals); th = lambda: o.__setitem__(name, a)
+            elif form == "dict+kw":
+                a = [{name: list(vals)}, np.array(vals)]; th = lambda: o.set_info(a[0], uu=a[1])
+            else:
+                a = vals[0]; th = lambda: o.set_info(**{name: a})
+            F.run("set_info", "%s:%s" % (c, form), th, {"recv": c, "set_info_form": form}, extra={"value": a}, mutates=(o,), keep=False)
+
+    names = sorted(set(n for n, _ in ops))
+    for _ in range(budget):
+        name, fn = rng.choice(ops)
+        try:
+            fn()
+        except Exception as ex:      # an error of the generator itself (not of a library call): reported, never silent
+            F.res.count("form_generator_error=" + name)
+            F.raised.setdefault("generator:" + name, []).append("%s: %s" % (type(ex).__name__, str(ex)[:160]))
+    return names
+
+
+def _iop(x, name, v):
+    """augmented assignment on an alias of x: Python rebinds the alias; the ORIGINAL object must be unchanged whatever the outcome"""
+    import operator
+    y = x
+    y = getattr(operator, name)(y, v)
+    return y if y is not x else None
+
+
+def form_process(F, rng):
+    """the process-module analyses on the forms of their inputs: signal class and dtype, band limits / kernels / bin edges / tuning curves as list, tuple, integer or float32 arrays, units, flags"""
+    nap = F.nap
+    off = PLACES[F.axes["place"]]
+    dt = rng.choice(["float64", "float64", "float32", "int64", "int16", "uint8"])
+    jit_ok = dt in JIT_DTYPES[F.tier]
+    n = 600
+    tt = off + np.arange(n) * 0.01
+    base = np.sin(np.arange(n) / 9.0) * 50
+    sig1 = F.arg("sig_d", base.astype(dt))
+    sig2 = F.arg("sig_d", np.stack([base, base[::-1]], 1).astype(dt))
+    sig3 = F.arg("sig_d", np.stack([base, base[::-1], base * 0.5, -base], 1).reshape(n, 2, 2).astype(dt))
+    one = nap.IntervalSet(off, off + 6.0)
+    two = nap.IntervalSet([off, off + 3.5], [off + 3.0, off + 6.0])
+    sup = rng.choice([one, one, two])
+    reg = F.add("sig", nap.Tsd(tt, sig1, time_support=sup))
+    regf = F.add("sig", nap.TsdFrame(tt, sig2, time_support=sup, columns=rng.choice([None, ["l", "r"], [5, 2]])))
+    regt = F.add("sig", nap.TsdTensor(tt, sig3, time_support=sup))
+    F.add("sig_support", sup)
+    sig = rng.choice([reg, regf, regt])
+    sc_ = cls_of(nap, sig)
+    spk = [off + np.sort(np.array(rng.sample(range(0, 600), 80), dtype=float)) / 100.0 for _ in range(3)]
+    keys = rng.choice([[0, 1, 2], [3, 9, 4], ["12", "7", "30"]])
+    g = F.add("spikes", nap.TsGroup(dict(zip(keys, [nap.Ts(s) for s in spk])), time_support=sup, metadata={"cat": [1, 2, 1]}))
+    ik = sorted(int(k) for k in keys)
+    ev = F.add("events", nap.Ts(off + np.arange(0.5, 5.5, 0.7), time_support=sup))
+    feat = F.add("feature", nap.Tsd(tt, F.arg("feat_d", (np.arange(n) % 3).astype(rng.choice(["float64", "int64", "float32"])) + (0 if rng.random() < 0.5 else 0.5)), time_support=sup))
+    feat2 = F.add("features", nap.TsdFrame(tt, F.arg("feat_d", np.stack([np.arange(n) % 3, np.arange(n) % 2], 1).astype(rng.choice(["float64", "int64"]))), time_support=sup))
+    ep = rng.choice([sup, one, two])
+    u = rng.choice(["s", "ms", "us"])
+    uf = UNIT_F[u]
+
+    def lim(vals, form=None):
+        form = form or rng.choice(["ndarray", "list", "tuple", "int array", "float32", "int list"])
+        v = list(vals)
+        if form in ("int array", "int list") and not all(float(x) == int(x) for x in v):
+            form = "ndarray"
+        return {"ndarray": np.array(v, dtype=float), "list": [float(x) for x in v], "tuple": tuple(float(x) for x in v), "int array": np.array([int(x) for x in v]) if form == "int array" else None,
+                "float32": np.array(v, dtype=np.float32), "int list": [int(x) for x in v] if form == "int list" else None}[form], form
+
+    def do(op, label, f, args, forms=None, extra=None, keep=True):
+        th, k = pk(rng, f, args)
+        fm = {"npos": k, "signal": sc_, "sig_dtype": dt, "supp_len": len(sup)}
+        fm.update(forms or {})
+        return F.run(op, label, th, fm, extra=extra, keep=keep)
+    cands = []
+
+    def filt():
+        kind = rng.choice(["lowpass", "highpass", "bandpass", "bandstop"])
+        f = getattr(nap, "apply_%s_filter" % kind)
+        mode = rng.choice(["butter", "sinc"])
+        if kind in ("bandpass", "bandstop"):
+            cut, cf = lim([2.0, 8.0])
+        else:
+            cut, cf = sc(rng, 5.0, ("float", "int", "np.float64", "np.int64", "np.float32"))
+        args = [("data", sig), ("cutoff", cut)]
+        opt = [("fs", rng.choice([None, 100.0, 100, np.float64(100.0)])), ("mode", mode), ("order", rng.choice([2, 4])), ("transition_bandwidth", rng.choice([0.02, 0.1]))]
+        args += opt[: rng.randint(2, 4)]
+        do("filter", "%s/%s" % (kind, mode), f, args, {"filter": kind, "mode": mode, "cutoff_form": cf}, extra={"cutoff": cut})
+        if rng.random() < 0.4:
+            do("filter_response", "%s/%s" % (kind, mode), nap.get_filter_frequency_response, [("cutoff", cut), ("fs", rng.choice([100.0, 100])), ("filter_type", kind), ("mode", mode)] + [("order", 4), ("transition_bandwidth", 0.1)][: rng.randint(0, 2)],
+               {"filter": kind, "mode": mode, "cutoff_form": cf}, extra={"cutoff": cut}, keep=False)
+    cands.append(filt)
+
+    def corr():
+        b, w = 0.05 * uf, 0.3 * uf
+        kind = rng.choice(["auto", "cross", "event", "cross_pair"])
+        flags = [("ep", rng.choice([None, ep])), ("norm", rng.choice([True, False])), ("time_units", u)]
+        if kind == "auto":
+            do("correlogram", kind, nap.compute_autocorrelogram, [("group", g), ("binsize", b), ("windowsize", w)] + flags, {"unit": u}, keep=False)
+        elif kind == "event":
+            do("correlogram", kind, nap.compute_eventcorrelogram, [("group", g), ("event", rng.choice([ev, reg])), ("binsize", b), ("windowsize", w)] + flags, {"unit": u}, keep=False)
+        else:
+            grp = g if kind == "cross" else rng.choice([(g, g), [g, g[ik[:2]]]])
+            do("correlogram", kind, nap.compute_crosscorrelogram, [("group", grp), ("binsize", b), ("windowsize", w)] + flags + [("reverse", rng.choice([True, False]))], {"unit": u, "group_form": type(grp).__name__}, keep=False)
+    cands.append(corr)
+
+    def tuning():
+        mm, mf = lim([0.0, 3.0])
+        nb = rng.choice([3, 4])
+        kind = rng.choice(["1d", "1d_cont", "2d", "2d_cont", "discrete", "mi1", "mi2"])
+        if kind == "1d":
+            fe = rng.choice([feat, feat2[:, 0:1]])
+            do("tuning_curves", kind, nap.compute_1d_tuning_curves, [("group", g), ("feature", fe), ("nb_bins", nb)] + [[], [("ep", ep)], [("ep", ep), ("minmax", mm)], [("minmax", mm)]][rng.randrange(4)], {"minmax_form": mf, "feature": cls_of(nap, fe)}, extra={"minmax": mm}, keep=False)
+        elif kind == "1d_cont":
+            do("tuning_curves", kind, nap.compute_1d_tuning_curves_continuous, [("tsdframe", rng.choice([reg, regf])), ("feature", feat), ("nb_bins", nb)] + [[], [("ep", ep)], [("ep", ep), ("minmax", mm)], [("minmax", mm)]][rng.randrange(4)], {"minmax_form": mf}, extra={"minmax": mm}, keep=False)
+        elif kind in ("2d", "2d_cont"):
+            mm4, mf = lim([0.0, 2.0, 0.0, 1.0])
+            nbb = rng.choice([2, (2, 3)])
+            f = nap.compute_2d_tuning_curves if kind == "2d" else nap.compute_2d_tuning_curves_continuous
+            do("tuning_curves", kind, f, [("group" if kind == "2d" else "tsdframe", g if kind == "2d" else rng.choice([reg, regf])), ("features", feat2), ("nb_bins", nbb)] + [[], [("ep", ep)], [("ep", ep), ("minmax", mm4)], [("minmax", mm4)]][rng.randrange(4)],
+               {"minmax_form": mf, "nb_bins": type(nbb).__name__}, extra={"minmax": mm4}, keep=False)
+        elif kind == "discrete":
+            d = {"a": ep, "b": one, 3: two}
+            do("tuning_curves", kind, nap.compute_discrete_tuning_curves, [("group", g), ("dict_ep", d)], extra={"dict_ep": d}, keep=False)
+        elif kind == "mi1":
+            tcf = rng.choice(["frame", "int frame", "ndarray", "float32", "zeros"])
+            v = np.array([[1.0, 3.0, 2.0], [5.0, 2.0, 1.0], [2.0, 7.0, 3.0]])
+            if tcf == "zeros":
+                v[0] = 0.0
+            tc = {"frame": pd.DataFrame(v, index=[0.5, 1.5, 2.5], columns=ik), "int frame": pd.DataFrame(v.astype(int), index=[0.5, 1.5, 2.5], columns=ik), "ndarray": v, "float32": v.astype(np.float32), "zeros": pd.DataFrame(v, columns=ik)}[tcf]
+            do("mutual_info", "1d", nap.compute_1d_mutual_info, [("tc", tc), ("feature", feat)] + [[], [("ep", ep)], [("ep", ep), ("minmax", mm), ("bitssec", rng.choice([True, False]))], [("minmax", mm)], [("bitssec", True)]][rng.randrange(5)], {"tc_form": tcf, "minmax_form": mf}, extra={"tc": tc, "minmax": mm}, keep=False)
+        else:
+            tcf = rng.choice(["dict", "ndarray", "int dict"])
+            v = np.array([[[1.0, 2.0], [3.0, 4.0]], [[2.0, 1.0], [0.5, 3.0]], [[1.0, 0.0], [2.0, 2.0]]])
+            tc2 = {"dict": {k: v[i] for i, k in enumerate(ik)}, "ndarray": v, "int dict": {k: v[i].astype(int) for i, k in enumerate(ik)}}[tcf]
+            do("mutual_info", "2d", nap.compute_2d_mutual_info, [("dict_tc", tc2), ("features", feat2)] + [[], [("ep", ep)], [("ep", ep), ("bitssec", rng.choice([True, False]))], [("bitssec", True)], [("minmax", F.arg("minmax4", [0.0, 2.0, 0.0, 1.0]))]][rng.randrange(5)], {"tc_form": tcf}, extra={"tc": tc2}, keep=False)
+    cands.append(tuning)
+
+    def decode():
+        b = 0.5 * uf
+        if rng.random() < 0.5:
+            tcf = rng.choice(["frame", "int frame", "tsdframe?"])
+            v = np.array([[1.0, 3.0, 2.0], [5.0, 2.0, 1.0], [2.0, 7.0, 3.0]])
+            tc = pd.DataFrame(v if tcf != "int frame" else v.astype(int), index=[0.5, 1.5, 2.5], columns=ik)
+            grp, gf = rng.choice([(g, "TsGroup"), (g.count(0.5, ep), "TsdFrame"), ({k: g[k] for k in ik}, "dict")])
+            do("decode_1d", gf, nap.decode_1d, [("tuning_curves", tc), ("group", grp), ("ep", ep), ("bin_size", b), ("time_units", u)] + ([("feature", rng.choice([None, feat]))] if rng.random() < 0.5 else []), {"tc_form": tcf, "group_form": gf, "unit": u},
+               extra={"tc": tc, "group": grp if isinstance(grp, dict) else None})
+        else:
+            v = np.array([[[1.0, 2.0], [3.0, 4.0]], [[2.0, 1.0], [0.5, 3.0]], [[1.0, 0.5], [2.0, 2.0]]])
+            tc2 = {k: v[i] for i, k in enumerate(ik)}
+            xy, xf = rng.choice([([np.array([0.5, 1.5]), np.array([0.25, 0.75])], "list of arrays"), ((np.array([0.5, 1.5]), np.array([0.25, 0.75])), "tuple of arrays"), ([[0.5, 1.5], [0.25, 0.75]], "list of lists"), (np.array([[0.5, 1.5], [0.25, 0.75]]), "2d array")])
+            grp, gf = rng.choice([(g, "TsGroup"), (g.count(0.5, ep), "TsdFrame"), ({k: g[k] for k in ik}, "dict")])
+            do("decode_2d", gf, nap.decode_2d, [("tuning_curves", tc2), ("group", grp), ("ep", ep), ("bin_size", b), ("xy", xy), ("time_units", u)] + ([("features", rng.choice([None, feat2]))] if rng.random() < 0.5 else []), {"xy_form": xf, "group_form": gf, "unit": u},
+               extra={"tc": tc2, "xy": xy})
+    cands.append(decode)
+
+    def peri():
+        w = 0.2 * uf
+        mmf = rng.choice(["tuple", "scalar", "int tuple"])
+        mm = {"tuple": (-w, w) , "scalar": w, "int tuple": (-int(w) if int(w) else -w, int(w) if int(w) else w)}[mmf]
+        kind = rng.choice(["perievent", "continuous", "eta"])
+        if kind != "perievent" and not (jit_ok and (F.tier != "quick" or sig is not regt)):
+            F.res.count("form_skipped:perievent average(dtype outside the tier's compiled set)")
+            kind = "perievent"
+        if kind == "perievent":
+            x = rng.choice([g, g[ik[0]], reg, ev])
+            do("perievent", cls_of(nap, x), nap.compute_perievent, [("timestamps", x), ("tref", rng.choice([ev, reg[::50]])), ("minmax", mm), ("time_unit", u)], {"minmax_form": mmf, "unit": u, "recv": cls_of(nap, x)})
+        elif kind == "continuous":
+            mmc = mm if mmf == "scalar" else (abs(mm[0]), abs(mm[1]))
+            do("perievent_continuous", sc_, nap.compute_perievent_continuous, [("timeseries", sig), ("tref", ev), ("minmax", mmc)] + [("ep", rng.choice([None, ep])), ("time_unit", u)][: 2 if u != "s" else rng.randint(0, 2)] if u != "s" else
+               [("timeseries", sig), ("tref", ev), ("minmax", mmc)] + [("ep", rng.choice([None, ep]))][: rng.randint(0, 1)], {"minmax_form": mmf, "unit": u})
+        else:
+            ws = rng.choice([(0.1 * uf, 0.1 * uf), 0.1 * uf, 0])
+            do("event_trigger_average", sc_, nap.compute_event_trigger_average, [("group", g), ("feature", sig), ("binsize", 0.02 * uf), ("windowsize", ws), ("ep", rng.choice([None, ep])), ("time_unit", u)], {"windowsize": type(ws).__name__, "unit": u})
+    cands.append(peri)
+
+    def spec():
+        kind = rng.choice(["fft", "psd", "mean_psd", "wavelet", "filterbank"])
+        x = rng.choice([reg, regf])
+        e1 = one
+        if kind == "fft":
+            do("spectrum", kind, nap.compute_fft, [("sig", x)] + [("fs", rng.choice([None, 100.0, 100])), ("ep", e1), ("full_range", rng.choice([True, False])), ("norm", rng.choice([True, False])), ("n", rng.choice([None, 256]))][: rng.randint(1, 5)] if len(sup) == 1 or True else [], keep=False)
+        elif kind == "psd":
+            do("spectrum", kind, nap.compute_power_spectral_density, [("sig", x), ("fs", rng.choice([None, 100.0])), ("ep", e1)] + [("full_range", rng.choice([True, False])), ("n", rng.choice([None, 256]))][: rng.randint(0, 2)], keep=False)
+        elif kind == "mean_psd":
+            do("spectrum", kind, nap.compute_mean_power_spectral_density, [("sig", x), ("interval_size", 1.5 * uf), ("fs", rng.choice([None, 100.0])), ("overlap", rng.choice([0.25, 0.0, 0.5])), ("ep", e1), ("full_range", rng.choice([True, False])), ("time_unit", u)], {"unit": u}, keep=False)
+        else:
+            fr_, ff = lim([2.0, 5.0, 10.0], rng.choice(["ndarray", "int array", "float32"]))
+            if kind == "wavelet":
+                do("wavelets", "transform", nap.compute_wavelet_transform, [("sig", sig), ("freqs", fr_)] + [("fs", rng.choice([None, 100.0, 100])), ("gaussian_width", 1.5), ("window_length", rng.choice([1.0, 1.5])), ("precision", rng.choice([16, 10])), ("norm", rng.choice(["l1", "l2", None]))][: rng.randint(0, 5)],
+                   {"freqs_form": ff}, extra={"freqs": fr_})
+            else:
+                do("wavelets", "filterbank", nap.generate_morlet_filterbank, [("freqs", fr_), ("fs", rng.choice([100.0, 100]))] + [("gaussian_width", 1.5), ("window_length", 1.0), ("precision", 10)][: rng.randint(0, 3)], {"freqs_form": ff}, extra={"freqs": fr_}, keep=False)
+    cands.append(spec)
+
+    def rnd():
+        x = rng.choice([g, g[ik[0]], ev, nap.TsGroup({}, time_support=sup) if rng.random() < 0.1 else g])
+        st = np.random.get_state()
+        np.random.seed(rng.randrange(2**31))
+        try:
+            kind = rng.choice(["shift", "shuffle", "jitter", "resample"])
+            if kind == "shift":
+                do("randomize", kind, nap.shift_timestamps, [("ts", x)] + [("min_shift", rng.choice([0.0, 0, 0.5])), ("max_shift", rng.choice([None, 2.0, 3]))][: rng.randint(0, 2)], {"recv": cls_of(nap, x)})
+            elif kind == "shuffle":
+                do("randomize", kind, nap.shuffle_ts_intervals, [("ts", x)] + [("min_shift", 0.0), ("max_shift", rng.choice([None, 2.0]))][: rng.randint(0, 2)], {"recv": cls_of(nap, x)})
+            elif kind == "jitter":
+                do("randomize", kind, nap.jitter_timestamps, [("ts", x), ("max_jitter", rng.choice([0.1, 1, np.float64(0.05)]))] + ([("keep_tsupport", rng.choice([True, False]))] if rng.random() < 0.6 else []), {"recv": cls_of(nap, x)})
+            else:
+                do("randomize", kind, nap.resample_timestamps, [("ts", x)], {"recv": cls_of(nap, x)})
+        finally:
+            np.random.set_state(st)
+    cands.append(rnd)
+    for fn in _pick(rng, cands * 2, 7 if F.tier == "quick" else 10):
+        try:
+            fn()
+        except Exception as ex:
+            F.res.count("form_generator_error=process")
+            F.raised.setdefault("generator:process", []).append("%s: %s" % (type(ex).__name__, str(ex)[:160]))
+
+
+# (c') the rejected writes on other forms of the containers
+FRESH_VARIANTS = ["int16_data", "float32_data", "bool_data", "uint8_data", "ms_units", "us_units", "negative_times", "far_times", "from_TsIndex", "from_lists", "int_time_arrays", "no_metadata", "bypass_check", "str_keys",
+                  "tsd_members", "restricted", "sliced", "saved_loaded", "arith_result", "nan_inf_data"]
+
+
+def fresh_variant(nap, variant, scratch):
+    """the seven objects of `fresh` (same sizes, labels and keys, so that every write of `rejected_writes` applies), built in another form"""
+    off = {"negative_times": -100.0, "far_times": 1e5}.get(variant, 0.0)
+    uf = {"ms_units": 1e3, "us_units": 1e6}.get(variant, 1.0)
+    un = {"ms_units": "ms", "us_units": "us"}.get(variant, "s")
+    dt = {"int16_data": np.int16, "float32_data": np.float32, "bool_data": bool, "uint8_data": np.uint8}.get(variant, np.float64)
+    t10, t5, t3 = off + np.arange(10.0), off + np.arange(5.0), off + np.arange(3.0)
+
+    def T(t):
+        t = t * uf
+        if variant == "from_lists":
+            return [float(x) for x in t]
+        if variant == "int_time_arrays":
+            return t.astype(np.int64)
+        if variant == "from_TsIndex":
+            return nap.Ts(t).index
+        return t
+    d1 = (np.arange(10) % 5).astype(dt); d2 = (np.arange(20) % 7).reshape(10, 2).astype(dt); d3 = (np.arange(40) % 9).reshape(10, 2, 2).astype(dt)
+    if variant == "nan_inf_data":
+        d1[2] = np.nan; d1[3] = np.inf; d2[1, 0] = -np.inf; d2[4] = np.nan; d3[0, 0, 0] = np.nan
+    meta = variant != "no_metadata"
+    ep = nap.IntervalSet(T(off + np.array([0.0, 10.0])), T(off + np.array([5.0, 15.0])), time_units=un, metadata={"lab": [1, 2]} if meta else None)
+    tsd = nap.Tsd(T(t10), d1, time_units=un)
+    ts = nap.Ts(T(t10), time_units=un)
+    frame = nap.TsdFrame(T(t10), d2, time_units=un, columns=["a", "b"], metadata={"m": [1, 2]} if meta else None)
+    tensor = nap.TsdTensor(T(t10), d3, time_units=un)
+    keys = ["0", "1", "4"] if variant == "str_keys" else [0, 1, 4]
+    mk = (lambda t: nap.Tsd(t, np.arange(len(t), dtype=float))) if variant == "tsd_members" else (lambda t: nap.Ts(t))
+    gsup = nap.IntervalSet(off - 1.0, off + 20.0)
+    group = nap.TsGroup(dict(zip(keys, [mk(t10), mk(t5), mk(t3)])), metadata={"lab": [1, 2, 3]} if meta else None, **({"time_support": gsup, "bypass_check": True} if variant == "bypass_check" else {}))
+    other_ep = nap.IntervalSet(off, off + 100.0)
+    o = {"ep": ep, "tsd": tsd, "ts": ts, "frame": frame, "tensor": tensor, "group": group, "other_ep": other_ep}
+    big = nap.IntervalSet(off - 1.0, off + 50.0)
+    if variant == "restricted":
+        o.update({"ep": ep.intersect(big), "tsd": tsd.restrict(big), "ts": ts.restrict(big), "frame": frame.restrict(big), "tensor": tensor.restrict(big), "group": group.restrict(big)})
+    elif variant == "sliced":
+        o.update({"ep": ep[0:2], "tsd": tsd[0:10], "ts": ts[::1], "frame": frame[["a", "b"]], "tensor": tensor[np.arange(10)], "group": group[[0, 1, 4]]})
+    elif variant == "arith_result":
+        o.update({"tsd": tsd * 2 + 1, "frame": np.abs(frame), "tensor": np.clip(tensor, 0, 5), "ep": ep.union(nap.IntervalSet([], [])) if not meta else ep.drop_short_intervals(0.1), "ts": tsd.value_from(tsd).count(1.0).restrict(tsd.time_support) if False else ts.get(off, off + 9.0),
+                  "group": group.get(off - 1.0, off + 30.0)})
+    elif variant == "saved_loaded":
+        for k in ("ep", "tsd", "ts", "frame", "tensor", "group"):
+            p = os.path.join(scratch, "fv_%s.npz" % k)
+            o[k].save(p)
+            o[k] = nap.load_file(p)
+    return o
+
+
+def extra_rejected_writes(nap):
+    """further spellings of the writes of part (c): other key forms of item assignment, augmented assignment on the container and on its time index"""
+    out = []
+
+    def I(label, c, f, kind="item"):
+        out.append((label, c, kind, f))
+
+    def aug(o, c, attr, opn, v):
+        import operator
+        tgt = o[c] if attr is None else getattr(o[c], attr)
+        r = getattr(operator, opn)(tgt, v)
+        if attr is not None:
+            setattr(o[c], attr, r)
+        else:
+            o[c] = r if r is tgt else o[c]      # `x op= v` rebinds the NAME: the object itself must be unchanged
+            if r is not tgt:
+                raise TypeError("augmented assignment returned a new object (the name is rebound, the container is untouched)")
+    I("ep[:,0]=x", "ep", lambda o: o["ep"].__setitem__((slice(None), 0), 1.0))
+    I("ep[...]=x", "ep", lambda o: o["ep"].__setitem__(Ellipsis, 1.0))
+    I("ep[bool]=x", "ep", lambda o: o["ep"].__setitem__(np.array([True, False]), 1.0))
+    I("ep[[0]]=x", "ep", lambda o: o["ep"].__setitem__([0], np.array([[1.0, 2.0]])))
+    I("ep[0:1]=x", "ep", lambda o: o["ep"].__setitem__(slice(0, 1), (1.0, 2.0)))
+    I("ep[np.int64]=x", "ep", lambda o: o["ep"].__setitem__(np.int64(0), [1.0, 2.0]))
+    I("ep['start']=list", "ep", lambda o: o["ep"].__setitem__("start", [1.0, 11.0]))
+    I("ep.loc[0,'start']=x", "ep", lambda o: o["ep"].loc.__setitem__((0, "start"), 1.0))
+    for c in ("tsd", "ts", "frame", "tensor"):
+        I("%s.index[bool]=x" % c, c, (lambda c: lambda o: o[c].index.__setitem__(np.arange(10) < 3, 5.0))(c))
+        I("%s.index[[0,1]]=x" % c, c, (lambda c: lambda o: o[c].index.__setitem__([0, 1], np.array([5.0, 6.0])))(c))
+        I("%s.index[...]=x" % c, c, (lambda c: lambda o: o[c].index.__setitem__(Ellipsis, 0.0))(c))
+        I("%s.index[-1]=int" % c, c, (lambda c: lambda o: o[c].index.__setitem__(-1, 3))(c))
+        for opn, v in (("iadd", 1.0), ("imul", 2), ("isub", np.float32(0.5)), ("itruediv", 2.0)):
+            I("%s.index %s x" % (c, opn), c, (lambda c, opn, v: lambda o: aug(o, c, "index", opn, v))(c, opn, v), "augmented")
+        I("%s.rate += x" % c, c, (lambda c: lambda o: aug(o, c, "rate", "iadd", 1.0))(c), "augmented")
+        I("%s.time_support |= ep" % c, c, (lambda c: lambda o: setattr(o[c], "time_support", o[c].time_support.union(o["other_ep"])))(c), "augmented")
+    for c in ("tsd", "frame", "tensor", "ep"):
+        for opn, v in (("iadd", 1.0), ("imul", 2)):
+            I("%s %s x" % (c, opn), c, (lambda c, opn, v: lambda o: aug(o, c, None, opn, v))(c, opn, v), "augmented")
+    I("group['0']=x", "group", lambda o: o["group"].__setitem__("0", o["ts"]))
+    I("group[np.int64(0)]=x", "group", lambda o: o["group"].__setitem__(np.int64(0), o["ts"]))
+    I("group[1.0]=x", "group", lambda o: o["group"].__setitem__(1.0, o["ts"]))
+    I("group[[0,1]]=x", "group", lambda o: o["group"].__setitem__((0, 1), o["ts"]))
+    I("group.rate=list", "group", lambda o: setattr(o["group"], "rate", [1.0, 2.0, 3.0]), "assign")
+    I("group.set_info({'rate':x})", "group", lambda o: o["group"].set_info({"rate": np.array([1.0, 2.0, 3.0])}))
+    I("group.set_info(frame rate)", "group", lambda o: o["group"].set_info(pd.DataFrame({"rate": [1.0, 2.0, 3.0]}, index=[0, 1, 4])))
+    I("group.update(group)", "group", lambda o: o["group"].update(nap.TsGroup({7: o["ts"]})), "dict_api")
+    I("group.update(k=ts)", "group", lambda o: o["group"].update([(7, o["ts"])]), "dict_api")
+    I("group.pop(0,None)", "group", lambda o: o["group"].pop(0, None), "dict_api")
+    return out
+
+
+def check_rejected_forms(res, nap, tier, seed, scratch):
+    """part (c) on other forms: every write of `rejected_writes` on a sample of the container forms, and the further spellings on the plain and the other forms"""
+    rng = random.Random(seed * 131 + 9)
+    base = rejected_writes(nap)
+    more = extra_rejected_writes(nap)
+    plans = [("plain", more)]
+    per = 10 if tier == "quick" else 60
+    for v in FRESH_VARIANTS:
+        plans.append((v, _pick(rng, base, per) + _pick(rng, more, 4 if tier == "quick" else 30)))
+    for variant, writes in plans:
+        for label, c, kind, f in writes:
+            try:
+                o = fresh(nap) if variant == "plain" else fresh_variant(nap, variant, scratch)
+            except Exception as ex:
+                res.disagreements.append({"op": "fresh_variant", "what": "harness: the container form %s could not be built: %s" % (variant, ex)})
+                break
+            before = {k: fstate(nap, v_) for k, v_ in o.items()}
+            res.case(("reject_form", variant, label), nontrivial=True)
+            res.count("reject_form=" + variant)
+            res.count("reject_kind=" + kind)
+            raised = False
+            try:
+                f(o)
+            except REJECT + (RecursionError, NotImplementedError, OSError):
+                raised = True
+            except Exception:
+                raised = True
+                res.count("reject_form_other_exception")
+            changed = sorted(k for k, v_ in o.items() if not fs_equal(before[k], fstate(nap, v_)))
+            trig = {"augmented": kind == "augmented", "on_time_index": ".index" in label, "other_form": variant != "plain"}
+            if not raised:
+                res.violations.append({"key": dict({"op": label, "part": "accepted_write", "kind": kind, "container": c, "state_changed": bool(changed)}, **trig),
+                                       "what": "a write that must be rejected was accepted: %s on the container form '%s' (objects changed: %s)" % (label, variant, changed or "none"), "input": {"case": label, "variant": variant, "changed": changed}})
+            elif changed:
+                res.violations.append({"key": dict({"op": label, "part": "state_changed_by_rejected_write", "kind": kind, "container": c}, **trig),
+                                       "what": "%s raised, but only after changing %s (container form '%s')" % (label, changed, variant), "input": {"case": label, "variant": variant, "changed": changed}})
+
+
+def draw_axes(rng):
+    dt = rng.choice(DTYPES)
+    fl = np.dtype(dt).kind == "f"
+    return {"dtype": dt, "special": rng.choice(["none", "nan", "+inf", "-inf", "mix", "inf_pair", "all_equal", "zeros"]) if fl else rng.choice(["none", "none", "all_equal", "zeros"]),
+            "place": rng.choice(list(PLACES)), "unit": rng.choice(["s", "ms", "us"]), "tform": rng.choice(TFORMS), "size": rng.choice(["many", "many", "many", "many", "dup", "one", "empty", "equal_times", "two"]),
+            "sform": rng.choice(["ndarray", "ndarray", "ndarray", "list", "tuple", "series", "int64", "int32", "uint32", "uint64", "float32", "unsorted"]), "meta": rng.choice(["none", "dict", "frame", "dict_tuple"]),
+            "cols": rng.choice(["default", "str", "int_unsorted", "int_array", "pdindex", "float", "mixed_order"]), "keys": rng.choice(["0..n-1", "gaps_unsorted", "str", "float", "np.int64", "multi_digit"]),
+            "members": rng.choice(["Ts", "Tsd", "empty_member", "arrays", "live"])}
+
+
+def run_form_world(res, nap, seed, wid, tier, scratch):
+    rng = random.Random(seed * 7919 + wid)
+    axes = draw_axes(rng)
+    if axes["place"] == "negative" and axes["tform"].startswith("uint"):
+        axes["tform"] = "int64"
+    F = Forms(res, nap, seed, wid, axes)
+    F.tier = tier
+    for k, v in axes.items():
+        res.count("world:%s=%s" % (k, v))
+    W = build_world(F, rng)
+    form_ops(F, rng, W, 22 if tier == "quick" else 40, scratch)
+    if wid % 2 == 0:
+        form_process(F, rng)
+    return F
+
+
+def check_forms(res, nap, tier, seed, scratch):
+    nw = 30 if tier == "quick" else 300
+    done, raised = {}, {}
+    for wid in range(nw):
+        F = run_form_world(res, nap, seed, wid, tier, scratch)
+        for k, v in F.done.items():
+            done[k] = done.get(k, 0) + v
+        for k, v in F.raised.items():
+            raised.setdefault(k, []).extend(v)
+        if wid == 0:
+            res.sample({"form_world_axes": F.axes, "calls": sorted(F.done)[:12]})
+    res.extra["form_calls_completed"] = done
+    res.extra["form_calls_raising"] = {k: len(v) for k, v in raised.items()}
+    res.extra["form_exception_samples"] = {k: v[:3] for k, v in raised.items()}
+    for k, v in raised.items():
+        if k.startswith("generator:"):
+            res.disagreements.append({"op": k, "what": "harness: the form generator itself raised (%d times); the calls behind it were never made" % len(v), "first": v[0]})
+        elif done.get(k, 0) == 0 and len(v) >= 2:
+            res.disagreements.append({"op": k, "what": "harness: the call '%s' raised in every one of its %d forms; its frame check is vacuous" % (k, len(v)), "first": v[0]})
+    return nw
 
 
 # ------------------------------------------------------------------------------------------------------
@@ -521,7 +1945,25 @@ def run(res, tier, seed):
                 "(d) item assignment / set_info are local to the addressed object for ~40 derivations of each of Tsd, TsdFrame, TsdTensor (both directions), 12 group derivations, 12 frame and "
                 "11 IntervalSet derivations; (e) %d further histories (length %d) in which TsdFrame/TsdTensor/TsGroup results are operands of later operations and random sanctioned mutations "
                 "(item assignment, column assignment, set_info, assignment into a group member) are interleaved: after a mutation every OTHER live object must be unchanged, around every "
-                "other call every live object must be unchanged. non-trivial = a call with >= 1 live object; distinct = (history, step) or (check, case)" % (nh, length, nm, mlength))
+                "other call every live object must be unchanged. non-trivial = a call with >= 1 live object; distinct = (history, step) or (check, case). "
+                "(c') ARGUMENT FORMS of the rejected writes: the writes of (c) on 20 other forms of the containers (int16/float32/bool/uint8 data, NaN/inf data, built in ms/us, negative and 1e5 s times, from a TsIndex, "
+                "from lists, from integer time arrays, without metadata, bypass_check, string keys, Tsd members, after restrict / slicing / arithmetic / save+load) and in further spellings (item keys as slice, "
+                "Ellipsis, boolean mask, list, np.int64; string / float / numpy keys of a group; augmented assignment on the container, on its time index, rate and support). "
+                "(f) ARGUMENT FORMS of every operation: %d seeded worlds (random.Random(seed*7919+w)); each draws one value per axis and builds its objects through the public constructors UNDER the frame check, "
+                "then runs %d operation draws (each several calls) with every call between two exact snapshots (dtype, shape, every element, labels, keys, member identity, metadata) of ALL live objects and ALL "
+                "caller-supplied arguments of the world; results join the store and are operands of later calls. Axis 1 data dtype: float64/float32/int64/int32/int16/int8/uint8..uint64/bool, data with NaN, +inf, -inf, "
+                "both infinities in one row, all-equal, zeros; kernels / operands / bin edges / band limits / tuning curves in float32, integer, unsigned, bool dtypes. Axis 2 time arguments: ndarray, list, int list, tuple, "
+                "pandas Series / Index / DataFrame, another object's TsIndex and .t, float32 / int64 / int32 / uint8..uint64 arrays, unsorted and strided views; scalars as Python int / float, np.float64 / float32 / int64, "
+                "0-d arrays. Axis 3: every call draws a random positional prefix of its arguments from the inspected signature and passes the rest by keyword; optional parameters omitted / None / each value; flags "
+                "combined (count x4 parameters, merge reset_index x reset_time_support x ignore_metadata, dropna, smooth, convolve trim x ep, interpolate left/right, filters mode x order x fs x bandwidth). Axis 4: s/ms/us "
+                "in constructors and in every operation taking a unit. Axis 5: times at the origin, all negative, straddling 0, offset 1e5 s; samples exactly on interval starts / ends. Axis 6: empty / one-sample / "
+                "two-sample / duplicate / all-equal-timestamp series (explicit support), empty / one / many-interval sets, intervals with zero or one sample, empty group, group with an empty member, keys with gaps, "
+                "unsorted, strings, multi-digit strings, floats, np.int64. Axis 7: Ts, Tsd, TsdFrame (default / string / unsorted integer / float / pd.Index columns, with and without metadata), TsdTensor, TsGroup "
+                "(dict / list / tuple of Ts / Tsd / raw arrays / live objects), dict of Ts, tuples of groups, IntervalSet with / without metadata, built from pairs, DataFrame, IntervalSet, scalars. Axis 8: results feed "
+                "later calls; the same live object as both operands; bypass_check groups; strided views of one base array; save + load_file results; sanctioned mutators (item assignment with 12 key forms and "
+                "int / float / numpy / bool / array values, set_info as kwargs list / array / tuple / Series / scalar, dict, DataFrame, attribute, item) must change the addressed object only (and the caller "
+                "array a support-less constructor documents as kept). A call that raises a clean exception still must leave everything unchanged; an operation that raises in ALL its forms is reported as a "
+                "vacuous check" % (nh, length, nm, mlength, 30 if tier == "quick" else 300, 22 if tier == "quick" else 40))
     # (a) histories with snapshots
     for hid in range(nh):
         r = H.run_history(nap, seed + 77, hid, length, 0.7, with_snapshots=True)
@@ -544,6 +1986,8 @@ def run(res, tier, seed):
             done_by_op[name] = done_by_op.get(name, 0) + 1
             if name.startswith(("extra:", "mutate:")):
                 res.count(name)
+        if r["dropped"]:
+            res.count("mhist_not_stored:second_series_on_the_harness_own_array", len(r["dropped"]))
         for label, msg in r["exc"]:
             exc_by_op[label.split(":", 1)[-1] if not label.startswith("op") else label.split(":")[-1]] = msg
             res.count("mhist_exception:" + label.split(":", 1)[-1])
@@ -670,7 +2114,7 @@ def run(res, tier, seed):
                             else:
                                 caller[k][...] = before[k]
                     for i, (o, sn) in enumerate(zip(live, snaps)):
-                        if not H.snap_equal(sn, state(nap, o)):
+                        if not fs_equal(sn, state(nap, o)):
                             res.violations.append({"key": {"op": name, "part": "argument_modified", "object": type(o).__name__}, "what": "an argument object was modified by " + name,
                                                    "input": {"call": name, "object": type(o).__name__}})
                             snaps[i] = state(nap, o)
@@ -686,8 +2130,16 @@ def run(res, tier, seed):
         check_setitem_local(res, nap)
         check_group_members_local(res, nap)
         check_set_info_local(res, nap)
+        # (c') the rejected writes on other container forms and in other spellings; (f) every operation on the other forms of its arguments
+        check_rejected_forms(res, nap, tier, seed, scratch)
+        check_forms(res, nap, tier, seed, scratch)
     finally:
         shutil.rmtree(scratch, ignore_errors=True)
+        vk = {}
+        for v_ in res.violations:
+            k_ = json.dumps(v_.get("key"), sort_keys=True, default=str)
+            vk[k_] = vk.get(k_, 0) + 1
+        res.extra["violation_key_counts"] = vk
 
 
 def search(res, seed):
@@ -714,6 +2166,21 @@ def replay(payload):
         print("objects changed across a non-mutating call:", r["fails"])
         print("objects other than the target changed by a mutation:", r["mfails"])
         return 1 if (r["fails"] or r["mfails"]) else 0
+    if "form_world" in inp or "variant" in inp:
+        scratch = os.path.join(C.CACHE, "c10_scratch_replay")
+        os.makedirs(scratch, exist_ok=True)
+        r = C.Result()
+        try:
+            if "form_world" in inp:
+                seed, wid, tier = inp["form_world"]
+                run_form_world(r, nap, seed, wid, tier, scratch)
+            else:
+                check_rejected_forms(r, nap, "thorough", 0, scratch)
+        finally:
+            shutil.rmtree(scratch, ignore_errors=True)
+        hits = [x for x in r.violations if x["key"] == v.get("key")]
+        print("form case", inp.get("form_world") or inp.get("variant"), inp.get("call") or inp.get("case"), "->", [h["what"] for h in hits[:3]] or "no violation with this key")
+        return 1 if hits else 0
     if "case" in inp:
         r = C.Result()
         check_rejected(r, nap)
